@@ -2,15 +2,16 @@
    The action validates (time / track id present, node id free), picks the track id (a fresh
    one when the requested track already has a node at that time), asks for the in-track
    neighbours (pred, succ) at the new time, refuses on a division conflict unless forced,
-   validates the position, and then: cuts the conflicting edges (UserDeleteEdge), removes the
+   validates the position and the pixels, and then: cuts the conflicting edges (UserDeleteEdge), removes the
    skip edge pred -> succ, adds the node, adds pred -> node and node -> succ.
    This file proves, at the model level:
      - uan_refused computes the refusals that happen before anything but the order inside one
        lookup list is touched, and the error they carry (uan_core_refused, uan_refused_unchanged);
-     - when no check fails and the pixels are acceptable the action succeeds, the result is a
-       forward-in-time binary forest with exactly the expected node and edge sets (uan_core_spec);
-     - the only other error is the failure of set_pixels inside AddNode; it is raised after the
-       cuts / the removal of the skip edge (uan_core_px_error, uan_error_cases).
+     - when no check fails the action succeeds, the result is a forward-in-time binary forest with
+       exactly the expected node and edge sets (uan_core_spec);
+     - there is no other error: every error is one of the refusals, so an error never comes with a
+       mutated graph (uan_core_ok_iff, uan_error_cases).  The last check is the validation of the
+       pixels (px_check), made before the first sub-action.
    No axioms are used. *)
 From Coq Require Import ZArith List Bool Lia Relations Permutation.
 From FT Require Import Base.Dict Model.Edit Proofs.DictLemmas Proofs.EditInv Proofs.EditGraph Proofs.EditWalk
@@ -125,7 +126,7 @@ Definition uan_refused (st : state) (n : Z) (a : attrs) (px : option pixels) (fo
   if has_node st n then Some (EInvalid false) else              (* the node id is taken *)
   if uan_has_conflict st (uan_pred st a) (uan_succ st a) && negb force then Some (EInvalid true) else  (* division conflict *)
   if uan_no_pos st a px then Some (EInvalid false) else         (* neither pixels nor a position *)
-  None.
+  px_check st px.                                               (* pixels set_pixels would reject: ValueError / IndexError *)
 
 (* the state a refusal returns *)
 Definition uan_refusal_state (st : state) (n : Z) (a : attrs) : state :=
@@ -183,7 +184,7 @@ Lemma uan_core_cases st n a px force :
                         (uan_conflict_edges st (uan_pred st a) (uan_succ st a)) /\
             haskey KTime a = true /\ haskey KTrack a = true /\ has_node st n = false /\
             (uan_has_conflict st (uan_pred st a) (uan_succ st a) = true -> force = true) /\
-            uan_no_pos st a px = false
+            uan_no_pos st a px = false /\ px_check st px = None
   end.
 Proof.
   unfold uan_refused, uan_refusal_state, uan_early, user_add_node_core.
@@ -203,16 +204,1232 @@ Proof.
   { unfold T, a'. destruct (has_track_at st (vz kv) (vz tv)); reflexivity. }
   rewrite Epair.
   destruct (track_neighbors st T (vz tv)) as [st1 [pred succ]] eqn:Etn. cbn [fst snd].
-  assert (Eg : g st1 = g st /\ ft st1 = ft st).
+  assert (Eg : g st1 = g st /\ ft st1 = ft st /\ seg st1 = seg st).
   { pose proof (f_equal fst Etn) as E1. cbn [fst] in E1. rewrite <- E1. unfold track_neighbors.
-    destruct (lookup T (trk_book (bk st))) as [[|x l]|]; cbn; split; reflexivity. }
-  destruct Eg as [Eg Ef].
+    destruct (lookup T (trk_book (bk st))) as [[|x l]|]; cbn; repeat split; reflexivity. }
+  destruct Eg as (Eg & Ef & Esg).
   rewrite uan_conflicts_eq, (uan_has_conflict_same_g st st1 pred succ Eg), (uan_conflict_edges_same_g st st1 pred succ Eg).
   destruct (uan_has_conflict st pred succ && negb force) eqn:Ec; cbn [bind]; [reflexivity|].
   assert (Epos : (match px with None => negb (all_in (pos_keys (ft st1)) a') | Some _ => false end) = uan_no_pos st a px).
   { unfold uan_no_pos. destruct px; [reflexivity|]. rewrite Ef. unfold a'.
     destruct (has_track_at st (vz kv) (vz tv)); [|reflexivity]. now rewrite all_in_set_present. }
   rewrite Epos. destruct (uan_no_pos st a px) eqn:Ep; [reflexivity|].
-  split; [reflexivity|]. split; [reflexivity|]. split; [reflexivity|]. split; [reflexivity|]. split; [|reflexivity].
+  assert (Epx : px_check st1 px = px_check st px) by (unfold px_check; now rewrite Esg).
+  rewrite Epx. destruct (px_check st px) as [e|] eqn:Epc; [reflexivity|].
+  split; [reflexivity|]. split; [reflexivity|]. split; [reflexivity|]. split; [reflexivity|]. split; [|split; reflexivity].
   intros Hc. rewrite Hc in Ec. cbn [andb] in Ec. now destruct force.
+Qed.
+
+(* ================================================================== *)
+(* 2. refusals (C11)                                                    *)
+(* ================================================================== *)
+(* get_track_neighbors only reorders one lookup list *)
+Lemma track_neighbors_reordered st T t : EditBook.reordered T st (fst (track_neighbors st T t)).
+Proof.
+  unfold track_neighbors. destruct (lookup T (trk_book (bk st))) as [[|x l]|] eqn:El; cbn [fst]; try apply EditBook.reordered_refl.
+  pose proof (EditBook.sort_by_time_perm st (x :: l)) as Hp.
+  remember (sort_by_time st (x :: l)) as l' eqn:El'. clear El'.
+  unfold EditBook.reordered. cbn. do 10 (split; [reflexivity|]).
+  split; [apply keys_set_in; eapply lookup_Some_keys; eauto|].
+  split; [intros T' HT; now apply lookup_set_neq|].
+  intros l1 E1. rewrite El in E1. injection E1 as <-.
+  exists l'. split; [apply lookup_set_eq|exact Hp].
+Qed.
+
+Lemma uan_refusal_state_reordered st n a : EditBook.reordered (uan_tid st a) st (uan_refusal_state st n a).
+Proof.
+  unfold uan_refusal_state. destruct (uan_early st n a); [apply EditBook.reordered_refl|apply track_neighbors_reordered].
+Qed.
+
+(* a refused UserAddNode: the error is the one of the first failing check; the state returned is the
+   given one when the check precedes get_track_neighbors, else the given one with one lookup list sorted *)
+Theorem uan_core_refused st n a px force e : uan_refused st n a px force = Some e ->
+  exists st', user_add_node_core st n a px force = Err e st' /\
+    EditBook.reordered (uan_tid st a) st st' /\ (uan_early st n a = true -> st' = st).
+Proof.
+  intros R. pose proof (uan_core_cases st n a px force) as C. rewrite R in C.
+  exists (uan_refusal_state st n a). split; [exact C|]. split; [apply uan_refusal_state_reordered|].
+  intros E. unfold uan_refusal_state. now rewrite E.
+Qed.
+
+(* the same, field by field: graph (nodes, attributes, edges), array, features, history, log, counters are
+   unchanged; the lineage lookup is unchanged; the track lookup has the same keys and, per key, the same members *)
+Definition untouched (st st' : state) : Prop :=
+  g st' = g st /\ seg st' = seg st /\ ft st' = ft st /\ undo_stack st' = undo_stack st /\
+  redo_stack st' = redo_stack st /\ rlog st' = rlog st /\ nctr st' = nctr st /\
+  lin_book (bk st') = lin_book (bk st) /\ max_trk (bk st') = max_trk (bk st) /\ max_lin (bk st') = max_lin (bk st) /\
+  keys (trk_book (bk st')) = keys (trk_book (bk st)) /\
+  (forall T l, lookup T (trk_book (bk st)) = Some l -> exists l', lookup T (trk_book (bk st')) = Some l' /\ Permutation l l').
+
+Lemma reordered_untouched T st st' : EditBook.reordered T st st' -> untouched st st'.
+Proof.
+  intros (A1&A2&A3&A4&A5&A6&A7&A8&A9&A10&A11&A12&A13). unfold untouched. do 11 (split; [assumption|]).
+  intros T' l E. destruct (Z.eq_dec T' T) as [->|Hn]; [now apply A13|].
+  exists l. split; [now rewrite A12|apply Permutation_refl].
+Qed.
+Lemma untouched_refl st : untouched st st.
+Proof. apply (reordered_untouched 0). apply EditBook.reordered_refl. Qed.
+
+Theorem uan_refused_unchanged st n a px force e : uan_refused st n a px force = Some e ->
+  exists st', user_add_node_core st n a px force = Err e st' /\ untouched st st'.
+Proof.
+  intros R. destruct (uan_core_refused st n a px force e R) as (st' & H & Hr & _).
+  exists st'. split; [exact H|]. eapply reordered_untouched; eauto.
+Qed.
+
+(* the refusals, spelled out *)
+Theorem uan_refusals st n a px force :
+  (haskey KTime a = false -> user_add_node_core st n a px force = Err (EInvalid false) st) /\
+  (haskey KTrack a = false -> user_add_node_core st n a px force = Err (EInvalid false) st) /\
+  (has_node st n = true -> user_add_node_core st n a px force = Err (EInvalid false) st) /\
+  (haskey KTime a = true -> haskey KTrack a = true -> has_node st n = false ->
+   uan_has_conflict st (uan_pred st a) (uan_succ st a) = true -> force = false ->
+   user_add_node_core st n a px force = Err (EInvalid true) (uan_sorted st a)) /\
+  (haskey KTime a = true -> haskey KTrack a = true -> has_node st n = false ->
+   (uan_has_conflict st (uan_pred st a) (uan_succ st a) = true -> force = true) ->
+   px = None -> all_in (pos_keys (ft st)) a = false ->
+   user_add_node_core st n a px force = Err (EInvalid false) (uan_sorted st a)) /\
+  (haskey KTime a = true -> haskey KTrack a = true -> has_node st n = false ->
+   (uan_has_conflict st (uan_pred st a) (uan_succ st a) = true -> force = true) ->
+   forall e, px_check st px = Some e ->
+   user_add_node_core st n a px force = Err e (uan_sorted st a)).
+Proof.
+  pose proof (uan_core_cases st n a px force) as C. unfold uan_refused, uan_refusal_state, uan_early in C.
+  split; [|split; [|split; [|split; [|split]]]].
+  - intros H. rewrite H in C. exact C.
+  - intros H. rewrite H in C. destruct (haskey KTime a); exact C.
+  - intros H. rewrite H in C. rewrite !orb_true_r in C. destruct (haskey KTime a); [destruct (haskey KTrack a)|]; exact C.
+  - intros H1 H2 H3 H4 ->. rewrite H1, H2, H3, H4 in C. exact C.
+  - intros H1 H2 H3 H4 -> H6. rewrite H1, H2, H3 in C. cbn [negb orb] in C.
+    destruct (uan_has_conflict st (uan_pred st a) (uan_succ st a)); [rewrite (H4 eq_refl) in *|]; cbn [negb andb] in C;
+      unfold uan_no_pos in C; rewrite H6 in C; exact C.
+  - intros H1 H2 H3 H4 e H5. rewrite H1, H2, H3 in C. cbn [negb orb] in C.
+    assert (Hp : uan_no_pos st a px = false) by (unfold uan_no_pos; destruct px; [reflexivity|discriminate H5]).
+    rewrite Hp, H5 in C.
+    destruct (uan_has_conflict st (uan_pred st a) (uan_succ st a)); [rewrite (H4 eq_refl) in *|]; cbn [negb andb] in C; exact C.
+Qed.
+
+(* the pixel validation, as a proposition *)
+Lemma px_check_ok st px : px_check st px = None <-> px_ok st px.
+Proof.
+  unfold px_check. destruct px as [p|]; cbn [px_ok]; [|tauto].
+  destruct (seg st) as [sg|].
+  - destruct (frame_ok sg (fst p)) eqn:E; split; [eauto|reflexivity|discriminate|].
+    intros (sg' & [= <-] & F). congruence.
+  - split; [discriminate|]. intros (sg' & C & _). discriminate C.
+Qed.
+Lemma px_check_err st px e : px_check st px = Some e ->
+  px <> None /\ ((e = EValue /\ seg st = None) \/ (e = EIndex /\ seg st <> None)).
+Proof.
+  unfold px_check. destruct px as [p|]; [|discriminate]. intros H. split; [discriminate|].
+  destruct (seg st) as [sg|]; [|injection H as <-; auto].
+  destruct (frame_ok sg (fst p)); [discriminate|]. injection H as <-. right. split; [reflexivity|discriminate].
+Qed.
+
+(* ================================================================== *)
+(* 3. the cuts                                                          *)
+(* ================================================================== *)
+Lemma uan_cut_spec : forall es s acc, W_dict s -> W_forest s -> NoDup es ->
+  (forall e, In e es -> edge s (fst e) (snd e)) ->
+  exists r s', uan_cut es s acc = Ok r s' /\ W_dict s' /\ W_forest s' /\ gstep s s' /\
+    (forall x y, edge s' x y <-> edge s x y /\ ~ In (x, y) es).
+Proof.
+  induction es as [|e r IH]; intros s acc Hd Hf Hnd He; cbn [uan_cut].
+  - exists acc, s. split; [reflexivity|]. split; [exact Hd|]. split; [exact Hf|]. split; [apply gstep_refl|].
+    intros x y. cbn [In]. tauto.
+  - inversion Hnd as [|? ? Hni Hnd']; subst.
+    destruct (ude_core_spec s (fst e) (snd e) Hd Hf) as [_ Hy].
+    destruct (Hy (He e (or_introl eq_refl))) as (a1 & s1 & H1 & Hd1 & Hf1 & G1 & E1 & _).
+    unfold user_delete_edge, top_wrap. rewrite H1. cbn [bind].
+    destruct (IH s1 (acc ++ [a1]) Hd1 Hf1 Hnd') as (r' & s' & H' & Hd' & Hf' & G' & E').
+    { intros e' Hin. apply E1. split; [apply He; now right|].
+      intros [A B]. apply Hni. destruct e as [e1 e2], e' as [e1' e2']. cbn [fst snd] in A, B. now subst. }
+    exists r', s'. split; [exact H'|]. split; [exact Hd'|]. split; [exact Hf'|].
+    split; [eapply gstep_trans; eauto|].
+    intros x y. rewrite E', E1. cbn [In]. destruct e as [e1 e2]. cbn [fst snd]. split.
+    + intros [[A B] C]. split; [exact A|]. intros [D|D]; [injection D as <- <-; apply B; auto|contradiction].
+    + intros [A B]. split; [split; [exact A|]|]; [intros [-> ->]; apply B; now left|intros C; apply B; now right].
+Qed.
+
+(* ================================================================== *)
+(* 4. the neighbours and the conflicting edges                          *)
+(* ================================================================== *)
+(* the track id finally used has no node at the new time *)
+Lemma uan_tid_free st a : W_book st -> has_track_at st (uan_tid st a) (uan_time a) = false.
+Proof.
+  intros Wb. unfold uan_tid. destruct (has_track_at st (uan_tid0 a) (uan_time a)) eqn:E; [|exact E].
+  destruct (has_track_at st (next_trk st) (uan_time a)) eqn:E'; [|reflexivity].
+  apply (EditBook.has_track_at_spec st _ _ Wb) in E'. destruct E' as (m & Nm & Tm & _).
+  exfalso. exact (EditBook.next_trk_fresh st Wb m Nm Tm).
+Qed.
+
+Lemma uan_neighbors_eq st a :
+  track_neighbors st (uan_tid st a) (uan_time a) = (uan_sorted st a, (uan_pred st a, uan_succ st a)).
+Proof. unfold uan_sorted, uan_pred, uan_succ. destruct (track_neighbors st _ _) as [s [p c]]. reflexivity. Qed.
+
+(* what get_track_neighbors returns, on a well-formed state *)
+Lemma uan_nbr_facts st a : W_dict st -> W_forest st -> W_trk st -> W_book st ->
+  W_book (uan_sorted st a) /\
+  (forall p, uan_pred st a = Some p ->
+     is_node st p /\ time_of st p < uan_time a /\ trk st p = Some (uan_tid st a) /\
+     (forall c, uan_succ st a = Some c -> successors st p = [c] /\ predecessors st c = [p]) /\
+     (uan_succ st a = None -> length (successors st p) <> 1%nat)) /\
+  (forall c, uan_succ st a = Some c ->
+     is_node st c /\ uan_time a < time_of st c /\ trk st c = Some (uan_tid st a) /\
+     (uan_pred st a = None -> head st c)).
+Proof.
+  intros Hd Hf Ht Wb. pose proof (uan_neighbors_eq st a) as E. pose proof (uan_tid_free st a Wb) as Hno.
+  destruct (uan_pred st a) as [p|]; destruct (uan_succ st a) as [c|].
+  - destruct (neighbors_adjacent st _ _ _ p c Hd Hf Ht Wb E Hno) as (He & Hnd & Hs & Hp & Tp & Tc & Htm & _ & Wb').
+    destruct (wd_edge_nodes _ Hd p c He) as [Np Nc].
+    split; [exact Wb'|]. split.
+    + intros p0 [= <-]. split; [exact Np|]. split; [lia|]. split; [exact Tp|]. split; [|discriminate].
+      intros c0 [= <-]. now split.
+    + intros c0 [= <-]. split; [exact Nc|]. split; [lia|]. split; [exact Tc|]. discriminate.
+  - destruct (neighbors_pred_only st _ _ _ p Hd Hf Ht Wb E Hno) as (Hl & Tp & Htm & _ & Wb').
+    split; [exact Wb'|]. split; [|discriminate].
+    intros p0 [= <-]. split; [eapply EditBook.zattr_is_node; exact Tp|]. split; [exact Htm|]. split; [exact Tp|].
+    split; [discriminate|]. intros _. exact Hl.
+  - destruct (neighbors_succ_only st _ _ _ c Hd Hf Ht Wb E Hno) as (Hh & Tc & Htm & _ & Wb').
+    split; [exact Wb'|]. split; [discriminate|].
+    intros c0 [= <-]. split; [apply Hh|]. split; [exact Htm|]. split; [exact Tc|]. intros _. exact Hh.
+  - destruct (EditBook.track_neighbors_spec st _ _ _ _ _ Wb E) as (_ & Wb' & _). split; [exact Wb'|]. split; discriminate.
+Qed.
+
+Lemma out_degree_2 st u : out_degree st u =? 2 = true <-> length (successors st u) = 2%nat.
+Proof. unfold out_degree. rewrite Z.eqb_eq. lia. Qed.
+
+Lemma in_map_pair (p x y : Z) l : In (x, y) (map (fun s => (p, s)) l) <-> x = p /\ In y l.
+Proof.
+  rewrite in_map_iff. split.
+  - intros (s & E & Hs). injection E as <- <-. auto.
+  - intros [-> Hy]. exists y. auto.
+Qed.
+
+(* the plan: the conflicting edges are distinct edges of the graph; once they are removed pred has no child
+   but succ, and succ no parent but pred; nothing conflicts when both neighbours exist *)
+Lemma uan_plan st a : W_dict st -> W_forest st -> W_trk st -> W_book st ->
+  let pred := uan_pred st a in let succ := uan_succ st a in let es := uan_conflict_edges st pred succ in
+  NoDup es /\ (forall e, In e es -> edge st (fst e) (snd e)) /\
+  (forall p y, pred = Some p -> edge st p y -> ~ In (p, y) es -> succ = Some y) /\
+  (forall c q, succ = Some c -> edge st q c -> ~ In (q, c) es -> pred = Some q) /\
+  (forall p c, pred = Some p -> succ = Some c -> es = []).
+Proof.
+  intros Hd Hf Ht Wb. cbv zeta. destruct (uan_nbr_facts st a Hd Hf Ht Wb) as (_ & FP & FS).
+  assert (Hdown : forall c, NoDup (uan_down st (Some c)) /\ (forall e, In e (uan_down st (Some c)) -> edge st (fst e) (snd e))).
+  { intros c. unfold uan_down. destruct (predecessors st c) as [|q r] eqn:Ep; [split; [constructor|intros e []]|].
+    destruct (out_degree st q =? 2); [|split; [constructor|intros e []]].
+    split; [repeat constructor; intros []|]. intros e [<-|[]]. cbn [fst snd].
+    assert (In q (predecessors st c)) as Hin by (rewrite Ep; now left). apply in_predecessors in Hin. tauto. }
+  unfold uan_conflict_edges.
+  destruct (uan_pred st a) as [p|] eqn:EP.
+  - destruct (FP p eq_refl) as (Np & Tmp & Tp & Hboth & Hlast).
+    destruct (out_degree st p =? 2) eqn:Eo.
+    + (* pred divides: both its edges go; succ cannot exist *)
+      apply out_degree_2 in Eo.
+      assert (Hnos : uan_succ st a = None).
+      { destruct (uan_succ st a) as [c|]; [|reflexivity]. destruct (Hboth c eq_refl) as [Hs _]. rewrite Hs in Eo. discriminate Eo. }
+      split; [|split; [|split; [|split]]].
+      * apply FinFun.Injective_map_NoDup; [intros x y [= ->]; reflexivity|apply (wd_adj_nodup _ Hd)].
+      * intros [x y] Hin. apply in_map_pair in Hin. destruct Hin as [-> Hy]. cbn [fst snd]. now apply edge_successors.
+      * intros p0 y [= <-] He Hni. exfalso. apply Hni. apply in_map_pair. split; [reflexivity|now apply edge_successors].
+      * intros c q Hc. rewrite Hnos in Hc. discriminate Hc.
+      * intros p0 c _ Hc. rewrite Hnos in Hc. discriminate Hc.
+    + assert (Eo' : length (successors st p) <> 2%nat) by (intros C; apply out_degree_2 in C; congruence).
+      destruct (uan_succ st a) as [c|] eqn:ES.
+      * destruct (Hboth c eq_refl) as [Hs Hp].
+        assert (Enil : uan_down st (Some c) = []).
+        { unfold uan_down. rewrite Hp, Eo. reflexivity. }
+        rewrite Enil. split; [constructor|]. split; [intros e []|]. split; [|split; [|reflexivity]].
+        -- intros p0 y [= <-] He _. apply edge_successors in He. rewrite Hs in He. destruct He as [<-|[]]. reflexivity.
+        -- intros c0 q [= <-] He _. f_equal.
+           assert (In q (predecessors st c)) as Hin by (apply in_predecessors; split; [apply (wd_edge_nodes _ Hd q c He)|exact He]).
+           rewrite Hp in Hin. destruct Hin as [<-|[]]. reflexivity.
+      * cbn [uan_down]. split; [constructor|]. split; [intros e []|]. split; [|split; [discriminate|reflexivity]].
+        intros p0 y [= <-] He _. exfalso. pose proof (Hlast eq_refl) as H1. pose proof (wf_out _ Hf p) as H2.
+        apply edge_successors in He. destruct (successors st p) as [|z [|z2 [|z3 r]]]; cbn [length] in *; [destruct He|lia|lia|lia].
+  - destruct (uan_succ st a) as [c|] eqn:ES.
+    + destruct (Hdown c) as [A B]. split; [exact A|]. split; [exact B|]. split; [discriminate|]. split; [|discriminate].
+      intros c0 q [= <-] He Hni. exfalso. destruct (FS c eq_refl) as (Nc & _ & _ & Hh). destruct (Hh eq_refl) as [_ Hdiv].
+      pose proof (Hdiv q He) as Dq. unfold divides in Dq. pose proof (wf_out _ Hf q) as Oq.
+      assert (Eq2 : out_degree st q =? 2 = true) by (apply out_degree_2; lia).
+      assert (Hq : In q (predecessors st c)) by (apply in_predecessors; split; [apply (wd_edge_nodes _ Hd q c He)|exact He]).
+      apply Hni. unfold uan_down. destruct (predecessors st c) as [|q' r] eqn:Ep; [destruct Hq|].
+      assert (q' = q) as ->.
+      { assert (In q' (predecessors st c)) as Hin by (rewrite Ep; now left). apply in_predecessors in Hin.
+        apply (wf_in _ Hf q' q c); tauto. }
+      rewrite Eq2. now left.
+    + cbn [uan_down]. split; [constructor|]. split; [intros e []|]. split; [discriminate|]. split; discriminate.
+Qed.
+
+(* ================================================================== *)
+(* 5. the splice: skip edge out, node in, two edges in                  *)
+(* ================================================================== *)
+(* a step that only changes the edge relation *)
+Definition estep (s s' : state) : Prop :=
+  node_ids s' = node_ids s /\ (forall m k, attr s' m k = attr s m k) /\ rest_eq s s'.
+Lemma estep_refl s : estep s s.
+Proof. split; [reflexivity|]. split; [reflexivity|apply rest_eq_refl]. Qed.
+Lemma estep_trans a b c : estep a b -> estep b c -> estep a c.
+Proof.
+  intros (A1 & A2 & A3) (B1 & B2 & B3). split; [congruence|]. split; [|eapply rest_eq_trans; eauto].
+  intros m k. now rewrite B2, A2.
+Qed.
+Lemma estep_is_node s s' m : estep s s' -> (is_node s' m <-> is_node s m).
+Proof. intros (A & _). unfold is_node. now rewrite A. Qed.
+Lemma estep_time s s' m : estep s s' -> time_of s' m = time_of s m.
+Proof. intros (_ & A & _). unfold time_of, zattr. now rewrite A. Qed.
+Lemma estep_trk s s' m : estep s s' -> trk s' m = trk s m.
+Proof. intros (_ & A & _). unfold trk, zattr. now rewrite A. Qed.
+Lemma estep_lin s s' m : estep s s' -> lin s' m = lin s m.
+Proof. intros (_ & A & _). unfold lin, zattr. now rewrite A. Qed.
+Lemma estep_ft s s' : estep s s' -> ft s' = ft s.
+Proof. intros (_ & _ & R). apply R. Qed.
+Lemma estep_seg s s' : estep s s' -> seg s' = seg s.
+Proof. intros (_ & _ & R). apply R. Qed.
+Lemma estep_bk s s' : estep s s' -> bk s' = bk s.
+Proof. intros (_ & _ & R). apply R. Qed.
+Lemma estep_hist s s' : estep s s' -> hist_eq s s'.
+Proof. intros (_ & _ & R). now apply rest_eq_hist. Qed.
+Lemma estep_gstep s s' : estep s s' -> gstep s s'.
+Proof. intros (A & B & C). now apply rest_eq_gstep. Qed.
+
+Lemma no_edges_nil st u : (forall y, ~ edge st u y) -> successors st u = [].
+Proof.
+  intros H. destruct (successors st u) as [|y r] eqn:E; [reflexivity|].
+  exfalso. apply (H y). apply edge_successors. rewrite E. now left.
+Qed.
+
+(* DeleteEdge(pred, succ) when both exist *)
+Lemma uan_skip_step s pred succ acts : W_dict s -> W_forest s ->
+  (forall p c, pred = Some p -> succ = Some c -> edge s p c) ->
+  exists r s', uan_skip s pred succ acts = Ok r s' /\ W_dict s' /\ W_forest s' /\ estep s s' /\
+    (forall x y, edge s' x y <-> edge s x y /\ ~ (pred = Some x /\ succ = Some y)) /\ (W_book s -> W_book s').
+Proof.
+  intros Hd Hf He. unfold uan_skip.
+  assert (Hnone : (pred = None \/ succ = None) ->
+    exists r s', Ok acts s = Ok r s' /\ W_dict s' /\ W_forest s' /\ estep s s' /\
+      (forall x y, edge s' x y <-> edge s x y /\ ~ (pred = Some x /\ succ = Some y)) /\ (W_book s -> W_book s')).
+  { intros Hn. exists acts, s. split; [reflexivity|]. split; [exact Hd|]. split; [exact Hf|]. split; [apply estep_refl|].
+    split; [|auto].
+    intros x y. split; [|tauto]. intros H. split; [exact H|]. intros [A B]. destruct Hn as [Hn|Hn]; congruence. }
+  destruct pred as [p|]; [|apply Hnone; now left]. destruct succ as [c|]; [|apply Hnone; now right].
+  destruct (do_del_edge_spec s p c (He p c eq_refl eq_refl)) as (b & s' & H & _). rewrite H. cbn [bind].
+  destruct (do_del_edge_WS s p c b s' Hd Hf H) as (Hd' & Hf' & E' & Hn' & Ha' & Hr').
+  exists (acts ++ [ABasic b]), s'. split; [reflexivity|]. split; [exact Hd'|]. split; [exact Hf'|].
+  split; [split; [exact Hn'|split; [exact Ha'|exact Hr']]|].
+  split; [|apply (EditBook.del_edge_W_book s p c b s' H)].
+  intros x y. rewrite E'. split; intros [A B]; (split; [exact A|]).
+  - intros [[= <-] [= <-]]. apply B. auto.
+  - intros [-> ->]. apply B. auto.
+Qed.
+
+(* AddEdge(u, v) onto a parentless v from a u with room *)
+Lemma add_edge_step s u v : W_dict s -> W_forest s -> is_node s u -> is_node s v ->
+  time_of s u < time_of s v -> (forall q, ~ edge s q v) -> (length (successors s u) <= 1)%nat ->
+  exists b s', do_add_edge s u v [] = Ok b s' /\ W_dict s' /\ W_forest s' /\ estep s s' /\
+    (forall x y, edge s' x y <-> edge s x y \/ (x = u /\ y = v)) /\ (W_book s -> W_book s').
+Proof.
+  intros Hd Hf Nu Nv Ht Hnp Ho.
+  destruct (do_add_edge_spec s u v [] Nu Nv) as (b & s' & H & _). exists b, s'. split; [exact H|].
+  destruct (do_add_edge_WS s u v [] b s' Hd Hf H Ht) as (Hd' & Hf' & E' & Hn' & Ha' & Hr').
+  { intros q Hq. exfalso. exact (Hnp q Hq). }
+  { now right. }
+  split; [exact Hd'|]. split; [exact Hf'|]. split; [split; [exact Hn'|split; [exact Ha'|exact Hr']]|].
+  split; [exact E'|apply (EditBook.add_edge_W_book s u v [] b s' H)].
+Qed.
+
+Lemma uan_link_pred_step s n pred b acts : W_dict s -> W_forest s -> is_node s n -> (forall q, ~ edge s q n) ->
+  (forall p, pred = Some p -> is_node s p /\ time_of s p < time_of s n /\ (forall y, ~ edge s p y)) ->
+  exists r s', uan_link_pred s n pred b acts = Ok r s' /\ W_dict s' /\ W_forest s' /\ estep s s' /\
+    (forall x y, edge s' x y <-> edge s x y \/ (pred = Some x /\ y = n)) /\ (W_book s -> W_book s').
+Proof.
+  intros Hd Hf Nn Hnp Hp. unfold uan_link_pred. destruct pred as [p|].
+  - destruct (Hp p eq_refl) as (Np & Ht & Hno).
+    destruct (add_edge_step s p n Hd Hf Np Nn Ht Hnp) as (b' & s' & H & Hd' & Hf' & Es & E' & Wb').
+    { rewrite (no_edges_nil s p Hno). cbn. lia. }
+    rewrite H. cbn [bind]. eexists _, s'. split; [reflexivity|]. split; [exact Hd'|]. split; [exact Hf'|]. split; [exact Es|].
+    split; [|exact Wb'].
+    intros x y. rewrite E'. split; (intros [A|[A B]]; [now left|right]).
+    + subst. auto.
+    + injection A as <-. auto.
+  - eexists _, s. split; [reflexivity|]. split; [exact Hd|]. split; [exact Hf|]. split; [apply estep_refl|].
+    split; [|auto].
+    intros x y. split; [now left|intros [A|[A _]]; [exact A|discriminate A]].
+Qed.
+
+Lemma uan_link_succ_step s n succ acts : W_dict s -> W_forest s -> is_node s n -> (length (successors s n) <= 1)%nat ->
+  (forall c, succ = Some c -> is_node s c /\ time_of s n < time_of s c /\ (forall q, ~ edge s q c)) ->
+  exists r s', uan_link_succ s n succ acts = Ok r s' /\ W_dict s' /\ W_forest s' /\ estep s s' /\
+    (forall x y, edge s' x y <-> edge s x y \/ (x = n /\ succ = Some y)) /\ (W_book s -> W_book s').
+Proof.
+  intros Hd Hf Nn Ho Hc. unfold uan_link_succ. destruct succ as [c|].
+  - destruct (Hc c eq_refl) as (Nc & Ht & Hno).
+    destruct (add_edge_step s n c Hd Hf Nn Nc Ht Hno Ho) as (b' & s' & H & Hd' & Hf' & Es & E' & Wb').
+    rewrite H. cbn [bind]. eexists _, s'. split; [reflexivity|]. split; [exact Hd'|]. split; [exact Hf'|]. split; [exact Es|].
+    split; [|exact Wb'].
+    intros x y. rewrite E'. split; (intros [A|[A B]]; [now left|right]).
+    + subst. auto.
+    + injection B as <-. auto.
+  - eexists _, s. split; [reflexivity|]. split; [exact Hd|]. split; [exact Hf|]. split; [apply estep_refl|].
+    split; [|auto].
+    intros x y. split; [now left|intros [A|[_ A]]; [exact A|discriminate A]].
+Qed.
+
+(* the splice on a state in which pred has no child but succ and succ no parent but pred *)
+Lemma uan_splice_spec s n a px pred succ acts t T L :
+  W_dict s -> W_forest s -> ~ is_node s n -> EditBook.rp_disjoint s -> NoDup (keys a) ->
+  lookup KTime a = Some (VZ t) -> lookup KTrack a = Some (VZ T) -> lookup KLin a = Some (VZ L) ->
+  (px = None -> all_in (pos_keys (ft s)) a = true) -> px_ok s px ->
+  (forall p, pred = Some p -> is_node s p /\ time_of s p < t) ->
+  (forall c, succ = Some c -> is_node s c /\ t < time_of s c) ->
+  (forall p c, pred = Some p -> succ = Some c -> edge s p c) ->
+  (forall p y, pred = Some p -> edge s p y -> succ = Some y) ->
+  (forall c q, succ = Some c -> edge s q c -> pred = Some q) ->
+  exists act s', uan_splice s n a px pred succ acts = Ok act s' /\ W_dict s' /\ W_forest s' /\
+    (forall m, is_node s' m <-> is_node s m \/ m = n) /\ node_ids s' = node_ids s ++ [n] /\
+    (forall x y, edge s' x y <-> (edge s x y /\ ~ (pred = Some x /\ succ = Some y)) \/
+                                  (pred = Some x /\ y = n) \/ (x = n /\ succ = Some y)) /\
+    time_of s' n = t /\ trk s' n = Some T /\ lin s' n = Some L /\
+    (forall k v, lookup k a = Some v -> ~ In k (rp_act (ft s)) -> attr s' n k = Some v) /\
+    (forall m k, m <> n -> attr s' m k = attr s m k) /\
+    seg s' = seg_after s px n /\ hist_eq s s' /\ (cfg_ok s -> W_book s -> cfg_ok s' /\ W_book s').
+Proof.
+  intros Hd Hf Hn Hrp Hnd Ha0 Ha1 Ha2 Hpos Hpx HP HS Hboth Hpy Hcq. unfold uan_splice.
+  (* 1. the skip edge *)
+  destruct (uan_skip_step s pred succ acts Hd Hf Hboth) as (r1 & s1 & H1 & Hd1 & Hf1 & E1 & Ed1 & Wb1).
+  rewrite H1. cbn [bind].
+  assert (Hn1 : ~ is_node s1 n) by (rewrite (estep_is_node _ _ _ E1); exact Hn).
+  assert (Hrp1 : EditBook.rp_disjoint s1) by (unfold EditBook.rp_disjoint; rewrite (estep_ft _ _ E1); exact Hrp).
+  (* 2. the node *)
+  destruct (do_add_node_ok s1 n a px T Hd1 Hn1 Hnd) as (b & s2 & H2).
+  { apply Hrp1. unfold EditBook.id_key. auto. }
+  { eapply lookup_Some_haskey; eauto. }
+  { exact Ha1. }
+  { rewrite (estep_ft _ _ E1). exact Hpos. }
+  { destruct px as [p|]; [|exact I]. cbn [px_ok] in *. rewrite (estep_seg _ _ E1). exact Hpx. }
+  rewrite H2. cbn [bind].
+  destruct (do_add_node_WS s1 n a px b s2 t T L Hd1 Hf1 Hn1 Hrp1 Hnd Ha0 Ha1 Ha2 H2)
+    as (Hd2 & Hf2 & Nd2 & Ids2 & Su2 & Ed2 & Sn2 & Nin2 & Tm2 & Tk2 & Ln2 & New2 & At2 & Tmo2 & _ & Sg2 & Hh2 & _).
+  assert (Nn2 : is_node s2 n) by (apply Nd2; now right).
+  assert (Hne : forall m, is_node s m -> m <> n) by (intros m Hm ->; contradiction).
+  (* 3. pred -> n *)
+  destruct (uan_link_pred_step s2 n pred b r1 Hd2 Hf2 Nn2 Nin2) as (r3 & s3 & H3 & Hd3 & Hf3 & E3 & Ed3 & Wb3).
+  { intros p Hp. destruct (HP p Hp) as [Np Tp]. split; [|split].
+    - apply Nd2. left. now apply (estep_is_node _ _ _ E1).
+    - rewrite Tm2, (Tmo2 p (Hne p Np)), (estep_time _ _ _ E1). exact Tp.
+    - intros y Hy. apply Ed2, Ed1 in Hy. destruct Hy as [Hy Hnot]. apply Hnot. split; [exact Hp|]. eapply Hpy; eauto. }
+  rewrite H3. cbn [bind].
+  (* 4. n -> succ *)
+  destruct (uan_link_succ_step s3 n succ r3 Hd3 Hf3) as (r4 & s4 & H4 & Hd4 & Hf4 & E4 & Ed4 & Wb4).
+  { now apply (estep_is_node _ _ _ E3). }
+  { assert (successors s3 n = []) as ->; [|cbn; lia]. apply no_edges_nil. intros y Hy. apply Ed3 in Hy.
+    destruct Hy as [Hy|[Hp _]].
+    - apply edge_successors in Hy. rewrite Sn2 in Hy. destruct Hy.
+    - destruct (HP n Hp) as [Np _]. contradiction. }
+  { intros c Hc. destruct (HS c Hc) as [Nc Tc]. split; [|split].
+    - apply (estep_is_node _ _ _ E3). apply Nd2. left. now apply (estep_is_node _ _ _ E1).
+    - rewrite !(estep_time _ _ _ E3), Tm2, (Tmo2 c (Hne c Nc)), (estep_time _ _ _ E1). exact Tc.
+    - intros q Hq. apply Ed3 in Hq. destruct Hq as [Hq|[_ Hq]]; [|exact (Hne c Nc Hq)].
+      apply Ed2, Ed1 in Hq. destruct Hq as [Hq Hnot]. apply Hnot. split; [eapply Hcq; eauto|exact Hc]. }
+  rewrite H4. cbn [bind].
+  exists (AGroup r4), s4. split; [reflexivity|]. split; [exact Hd4|]. split; [exact Hf4|].
+  pose proof (estep_trans _ _ _ E3 E4) as E34.
+  split; [intros m; rewrite (estep_is_node _ _ _ E34), Nd2, (estep_is_node _ _ _ E1); tauto|].
+  split; [destruct E34 as (I34 & _); destruct E1 as (I1 & _); now rewrite I34, Ids2, I1|].
+  split; [intros x y; rewrite Ed4, Ed3, Ed2, Ed1; tauto|].
+  split; [now rewrite (estep_time _ _ _ E34)|]. split; [now rewrite (estep_trk _ _ _ E34)|].
+  split; [now rewrite (estep_lin _ _ _ E34)|].
+  split; [intros k v Hk Hnk; destruct E34 as (_ & A34 & _); rewrite A34; apply New2; [exact Hk|now rewrite (estep_ft _ _ E1)]|].
+  split; [intros m k Hm; destruct E34 as (_ & A34 & _); destruct E1 as (_ & A1 & _); now rewrite A34, At2, A1|].
+  split; [rewrite (estep_seg _ _ E34), Sg2; unfold seg_after; now rewrite (estep_seg _ _ E1)|].
+  assert (Hh : hist_eq s s4).
+  { eapply hist_eq_trans; [apply (estep_hist _ _ E1)|]. eapply hist_eq_trans; [exact Hh2|apply (estep_hist _ _ E34)]. }
+  split; [exact Hh|].
+  intros C Wb. split; [apply (EditLin.cfg_ok_ft s s4); [apply Hh|exact C]|].
+  apply Wb4, Wb3. apply (EditBook.add_node_W_book s1 n a px b s2); [|exact Hn1|exact H2|now apply Wb1].
+  apply (EditLin.cfg_ok_ft s s1); [apply (estep_ft _ _ E1)|exact C].
+Qed.
+
+(* ================================================================== *)
+(* 6. the attributes of the new node                                    *)
+(* ================================================================== *)
+(* the caller's attributes: a dictionary whose time / track id / lineage id entries, if any, are integers *)
+Record attrs_ok (a : attrs) : Prop := {
+  ao_nodup : NoDup (keys a);
+  ao_time : forall v, lookup KTime a = Some v -> exists t, v = VZ t;
+  ao_track : forall v, lookup KTrack a = Some v -> exists T, v = VZ T;
+  ao_lin : forall v, lookup KLin a = Some v -> exists l, v = VZ l
+}.
+
+Lemma K_distinct : KTime <> KTrack /\ KTime <> KLin /\ KTrack <> KLin.
+Proof. unfold KTime, KTrack, KLin. lia. Qed.
+
+Lemma uan_attrs_facts st a : attrs_ok a -> haskey KTime a = true -> haskey KTrack a = true ->
+  lookup KTime (uan_attrs st a) = Some (VZ (uan_time a)) /\
+  lookup KTrack (uan_attrs st a) = Some (VZ (uan_tid st a)) /\
+  NoDup (keys (uan_attrs st a)) /\
+  lookup KLin (uan_attrs st a) = lookup KLin a /\
+  (forall k, k <> KTrack -> lookup k (uan_attrs st a) = lookup k a) /\
+  (forall ks, all_in ks (uan_attrs st a) = all_in ks a).
+Proof.
+  intros [And At Ak Al] Ht Hk. destruct K_distinct as (D1 & D2 & D3).
+  destruct (haskey_lookup _ _ Ht) as [tv Etv]. destruct (haskey_lookup _ _ Hk) as [kv Ekv].
+  destruct (At tv Etv) as [t ->]. destruct (Ak kv Ekv) as [T0 ->].
+  assert (Et : uan_time a = t) by (unfold uan_time, getd; now rewrite Etv).
+  assert (E0 : uan_tid0 a = T0) by (unfold uan_tid0, getd; now rewrite Ekv).
+  unfold uan_attrs, uan_tid. rewrite Et, E0. destruct (has_track_at st T0 t).
+  - split; [rewrite lookup_set_neq by exact D1; exact Etv|]. split; [apply lookup_set_eq|].
+    split; [now apply NoDup_keys_set|]. split; [apply lookup_set_neq; congruence|].
+    split; [intros k Hne; now apply lookup_set_neq|]. intros ks. now apply all_in_set_present.
+  - repeat split; auto.
+Qed.
+
+Lemma uan_lin_attrs_facts s a pred succ : W_dict s -> NoDup (keys a) ->
+  (forall v, lookup KLin a = Some v -> exists l, v = VZ l) ->
+  (forall p, pred = Some p -> is_node s p) -> (forall c, succ = Some c -> is_node s c) ->
+  let a' := uan_lin_attrs s a pred succ in
+  exists L, lookup KLin a' = Some (VZ L) /\ NoDup (keys a') /\
+    (forall k, k <> KLin -> lookup k a' = lookup k a) /\
+    (forall ks, all_in ks a = true -> all_in ks a' = true) /\
+    (haskey KLin a = false ->
+       (forall p, pred = Some p -> lin s p = Some L) /\
+       (pred = None -> forall c, succ = Some c -> lin s c = Some L) /\
+       (pred = None -> succ = None -> L = next_lin s)).
+Proof.
+  intros Hd Hnd Hl HP HS. cbv zeta. unfold uan_lin_attrs.
+  destruct (haskey KLin a) eqn:Eh.
+  - destruct (haskey_lookup _ _ Eh) as [v Ev]. destruct (Hl v Ev) as [l ->].
+    exists l. split; [exact Ev|]. split; [exact Hnd|]. split; [reflexivity|]. split; [auto|discriminate].
+  - assert (Hset : forall l, exists L, lookup KLin (set KLin (VZ l) a) = Some (VZ L) /\ NoDup (keys (set KLin (VZ l) a)) /\
+       (forall k, k <> KLin -> lookup k (set KLin (VZ l) a) = lookup k a) /\
+       (forall ks, all_in ks a = true -> all_in ks (set KLin (VZ l) a) = true) /\ L = l).
+    { intros l. exists l. split; [apply lookup_set_eq|]. split; [now apply NoDup_keys_set|].
+      split; [intros k Hk; now apply lookup_set_neq|]. split; [intros ks; apply all_in_set_mono|reflexivity]. }
+    destruct pred as [p|]; [|destruct succ as [c|]].
+    + destruct (wd_lin _ Hd p (HP p eq_refl)) as [l El]. apply zattr_attr in El. rewrite El.
+      destruct (Hset l) as (L & A & B & C & D & ->). exists l. repeat (split; [assumption|]).
+      intros _. split; [intros p0 [= <-]; exact El|split; discriminate].
+    + destruct (wd_lin _ Hd c (HS c eq_refl)) as [l El]. apply zattr_attr in El. rewrite El.
+      destruct (Hset l) as (L & A & B & C & D & ->). exists l. repeat (split; [assumption|]).
+      intros _. split; [discriminate|]. split; [intros _ c0 [= <-]; exact El|discriminate].
+    + destruct (Hset (next_lin s)) as (L & A & B & C & D & ->). exists (next_lin s). repeat (split; [assumption|]).
+      intros _. split; [discriminate|]. split; [intros _ c0; discriminate|reflexivity].
+Qed.
+
+(* ================================================================== *)
+(* 7. the accepted action                                               *)
+(* ================================================================== *)
+Lemma reordered_gstep T s s' : EditBook.reordered T s s' -> gstep s s'.
+Proof.
+  intros R. destruct (reordered_frame T s s' R) as (Eg & Es & Ef & Eu & Er & El & En & Eids & _ & Ha & _).
+  constructor; auto.
+Qed.
+
+(* everything up to and including the cuts: the state the splice starts from *)
+Lemma uan_after_cuts st n a px force : W_dict st -> W_forest st -> W_trk st -> W_book st ->
+  uan_refused st n a px force = None ->
+  let t := uan_time a in let pred := uan_pred st a in let succ := uan_succ st a in
+  let es := uan_conflict_edges st pred succ in
+  exists acts s2, uan_cut es (uan_sorted st a) [] = Ok acts s2 /\
+    user_add_node_core st n a px force =
+      uan_splice s2 n (uan_lin_attrs s2 (uan_attrs st a) pred succ) px pred succ acts /\
+    W_dict s2 /\ W_forest s2 /\ gstep st s2 /\ ~ is_node s2 n /\
+    (forall x y, edge s2 x y <-> edge st x y /\ ~ In (x, y) es) /\
+    (forall p, pred = Some p -> is_node s2 p /\ time_of s2 p < t) /\
+    (forall c, succ = Some c -> is_node s2 c /\ t < time_of s2 c) /\
+    (forall p c, pred = Some p -> succ = Some c -> edge s2 p c) /\
+    (forall p y, pred = Some p -> edge s2 p y -> succ = Some y) /\
+    (forall c q, succ = Some c -> edge s2 q c -> pred = Some q) /\
+    haskey KTime a = true /\ haskey KTrack a = true /\ uan_no_pos st a px = false /\
+    (es <> [] -> force = true) /\ px_ok st px.
+Proof.
+  intros Hd Hf Ht Wb R. cbv zeta.
+  pose proof (uan_core_cases st n a px force) as C. rewrite R in C. destruct C as (Hc & Hkt & Hkk & Hnn & Hforce & Hpos & Hpc).
+  destruct (uan_nbr_facts st a Hd Hf Ht Wb) as (_ & FP & FS).
+  destruct (uan_plan st a Hd Hf Ht Wb) as (Pnd & Pe & Ppy & Pcq & Pboth). cbv zeta in *.
+  pose proof (track_neighbors_reordered st (uan_tid st a) (uan_time a)) as Hr. fold (uan_sorted st a) in Hr.
+  destruct (reordered_frame _ _ _ Hr) as (Eg & _ & _ & _ & _ & _ & _ & _ & Hnode1 & _ & Htm1 & _ & _ & _ & _ & Hedge1 & _ & _ & _ & Wd1 & Wf1 & _).
+  pose proof (reordered_gstep _ _ _ Hr) as G1.
+  set (es := uan_conflict_edges st (uan_pred st a) (uan_succ st a)) in *.
+  destruct (uan_cut_spec es (uan_sorted st a) [] (Wd1 Hd) (Wf1 Hf) Pnd) as (acts & s2 & H2 & Hd2 & Hf2 & G2 & E2).
+  { intros e He. apply Hedge1. now apply Pe. }
+  pose proof (gstep_trans _ _ _ G1 G2) as G.
+  assert (Ed : forall x y, edge s2 x y <-> edge st x y /\ ~ In (x, y) es) by (intros x y; rewrite E2, Hedge1; tauto).
+  exists acts, s2. split; [exact H2|]. split; [rewrite Hc; unfold uan_steps; rewrite H2; reflexivity|].
+  split; [exact Hd2|]. split; [exact Hf2|]. split; [exact G|].
+  split; [rewrite (gstep_is_node _ _ n G); now apply has_node_false|]. split; [exact Ed|].
+  split; [intros p Hp; destruct (FP p Hp) as (Np & Tp & _); split; [now apply (gstep_is_node _ _ p G)|now rewrite (gstep_time _ _ p G)]|].
+  split; [intros c Hs; destruct (FS c Hs) as (Nc & Tc & _); split; [now apply (gstep_is_node _ _ c G)|now rewrite (gstep_time _ _ c G)]|].
+  split.
+  { intros p c Hp Hs. apply Ed. rewrite (Pboth p c Hp Hs). split; [|intros []].
+    destruct (FP p Hp) as (_ & _ & _ & Hb & _). destruct (Hb c Hs) as [Hsu _]. apply edge_successors. rewrite Hsu. now left. }
+  split; [intros p y Hp Hy; apply Ed in Hy; destruct Hy as [A B]; eapply Ppy; eauto|].
+  split; [intros c q Hs Hq; apply Ed in Hq; destruct Hq as [A B]; eapply Pcq; eauto|].
+  split; [exact Hkt|]. split; [exact Hkk|]. split; [exact Hpos|]. split; [|now apply px_check_ok].
+  intros Hne. apply Hforce. unfold uan_has_conflict. fold es. destruct es; [congruence|reflexivity].
+Qed.
+
+(* UserAddNode accepted: the new node is spliced into its track *)
+Theorem uan_core_spec st n a px force :
+  W_dict st -> W_forest st -> W_trk st -> W_book st -> EditBook.rp_disjoint st -> attrs_ok a ->
+  uan_refused st n a px force = None ->
+  let t := uan_time a in let T := uan_tid st a in let pred := uan_pred st a in let succ := uan_succ st a in
+  let es := uan_conflict_edges st pred succ in
+  exists act st', user_add_node_core st n a px force = Ok act st' /\ W_dict st' /\ W_forest st' /\
+    (forall x, is_node st' x <-> is_node st x \/ x = n) /\ node_ids st' = node_ids st ++ [n] /\
+    time_of st' n = t /\ trk st' n = Some T /\
+    (forall x y, edge st' x y <->
+       (edge st x y /\ ~ In (x, y) es /\ ~ (pred = Some x /\ succ = Some y)) \/
+       (pred = Some x /\ y = n) \/ (x = n /\ succ = Some y)) /\
+    (exists L, lin st' n = Some L /\
+       (haskey KLin a = false -> (forall p, pred = Some p -> lin st' p = Some L) /\
+                                 (pred = None -> forall c, succ = Some c -> lin st' c = Some L))) /\
+    (forall k v, lookup k (uan_attrs st a) = Some v -> k <> KLin -> ~ In k (rp_act (ft st)) -> attr st' n k = Some v) /\
+    (forall m k, m <> n -> k <> KTrack -> k <> KLin -> attr st' m k = attr st m k) /\
+    seg st' = seg_after st px n /\ hist_eq st st'.
+Proof.
+  intros Hd Hf Ht Wb Hrp Ao R. cbv zeta.
+  destruct (uan_after_cuts st n a px force Hd Hf Ht Wb R)
+    as (acts & s2 & _ & Hc & Hd2 & Hf2 & G & Hn2 & Ed & HP & HS & Hboth & Hpy & Hcq & Hkt & Hkk & Hpos & _ & Hpx). cbv zeta in *.
+  destruct (uan_attrs_facts st a Ao Hkt Hkk) as (A0 & A1 & And & Alin & Aoth & Aall).
+  destruct (uan_lin_attrs_facts s2 (uan_attrs st a) (uan_pred st a) (uan_succ st a) Hd2 And) as (L & L1 & Lnd & Loth & Lall & Llin).
+  { rewrite Alin. apply (ao_lin _ Ao). }
+  { intros p Hp. apply (HP p Hp). }
+  { intros c Hs. apply (HS c Hs). }
+  cbv zeta in *. destruct K_distinct as (D1 & D2 & D3).
+  assert (Hrp2 : EditBook.rp_disjoint s2) by (unfold EditBook.rp_disjoint; rewrite (gs_ft _ _ G); exact Hrp).
+  assert (B0 : lookup KTime (uan_lin_attrs s2 (uan_attrs st a) (uan_pred st a) (uan_succ st a)) = Some (VZ (uan_time a)))
+    by (rewrite Loth by exact D2; exact A0).
+  assert (B1 : lookup KTrack (uan_lin_attrs s2 (uan_attrs st a) (uan_pred st a) (uan_succ st a)) = Some (VZ (uan_tid st a)))
+    by (rewrite Loth by exact D3; exact A1).
+  assert (Bpos : px = None -> all_in (pos_keys (ft s2)) (uan_lin_attrs s2 (uan_attrs st a) (uan_pred st a) (uan_succ st a)) = true).
+  { intros ->. apply Lall. rewrite Aall, (gs_ft _ _ G). unfold uan_no_pos in Hpos. now apply negb_false_iff in Hpos. }
+  assert (Bpx : px_ok s2 px).
+  { destruct px as [p|]; [|exact I]. cbn [px_ok] in *. rewrite (gs_seg _ _ G). exact Hpx. }
+  destruct (uan_splice_spec s2 n _ px _ _ acts (uan_time a) (uan_tid st a) L Hd2 Hf2 Hn2 Hrp2 Lnd B0 B1 L1 Bpos Bpx HP HS Hboth Hpy Hcq)
+    as (act & s' & H & Hd' & Hf' & Nd' & Ids' & Ed' & Tm' & Tk' & Ln' & New' & At' & Sg' & Hh' & _).
+  exists act, s'. split; [rewrite Hc; exact H|]. split; [exact Hd'|]. split; [exact Hf'|].
+    split; [intros x; rewrite Nd', (gstep_is_node _ _ x G); tauto|].
+    split; [now rewrite Ids', (gs_nodes _ _ G)|]. split; [exact Tm'|]. split; [exact Tk'|].
+    split; [intros x y; rewrite Ed', Ed; tauto|].
+    assert (Hold : forall m, is_node s2 m -> lin s' m = lin s2 m).
+    { intros m Hm. unfold lin, zattr. rewrite At'; [reflexivity|]. intros ->. contradiction. }
+    split.
+    { exists L. split; [exact Ln'|]. intros Hno.
+      assert (Hno' : haskey KLin (uan_attrs st a) = false) by (unfold haskey in *; now rewrite Alin).
+      destruct (Llin Hno') as (LP & LS & _). split.
+      - intros p Hp. rewrite (Hold p (proj1 (HP p Hp))). now apply LP.
+      - intros Hp c Hs. rewrite (Hold c (proj1 (HS c Hs))). now apply LS. }
+    split; [intros k v Hk Hkl Hrk; apply New'; [rewrite Loth by exact Hkl; exact Hk|now rewrite (gs_ft _ _ G)]|].
+    split; [intros m k Hm Hk1 Hk2; rewrite At' by exact Hm; now apply (gs_attr _ _ G)|].
+    split; [rewrite Sg'; unfold seg_after; now rewrite (gs_seg _ _ G)|].
+    eapply hist_eq_trans; [|exact Hh']. unfold hist_eq.
+    rewrite (gs_ft _ _ G), (gs_undo _ _ G), (gs_redo _ _ G), (gs_rlog _ _ G), (gs_nctr _ _ G). repeat split.
+Qed.
+
+(* ================================================================== *)
+(* 8. the pixel validation: the error set_pixels would raise, raised first *)
+(* ================================================================== *)
+(* pixels that set_pixels rejects (no array: ValueError; frame index out of range: IndexError) are refused
+   by the last check, before the first sub-action: the graph is as given *)
+Theorem uan_px_refused st n a px force e :
+  uan_refused st n a px force = Some e -> px_check st px = Some e -> uan_early st n a = false ->
+  (uan_has_conflict st (uan_pred st a) (uan_succ st a) = true -> force = true) -> uan_no_pos st a px = false ->
+  user_add_node_core st n a px force = Err e (uan_sorted st a) /\ untouched st (uan_sorted st a) /\
+  px <> None /\ ((e = EValue /\ seg st = None) \/ (e = EIndex /\ seg st <> None)).
+Proof.
+  intros R Hpc He _ _. pose proof (uan_core_cases st n a px force) as C. rewrite R in C.
+  unfold uan_refusal_state in C. rewrite He in C. split; [exact C|].
+  split; [eapply reordered_untouched; apply track_neighbors_reordered|]. now apply px_check_err.
+Qed.
+
+(* when every other check passes, the verdict is that of the pixel validation *)
+Lemma uan_refused_px st n a px force : uan_early st n a = false ->
+  (uan_has_conflict st (uan_pred st a) (uan_succ st a) = true -> force = true) -> uan_no_pos st a px = false ->
+  uan_refused st n a px force = px_check st px.
+Proof.
+  unfold uan_early, uan_refused. intros He Hc Hp.
+  destruct (haskey KTime a); [|discriminate He]. destruct (haskey KTrack a); [|discriminate He]. cbn [negb orb] in *.
+  rewrite He, Hp. destruct (uan_has_conflict st (uan_pred st a) (uan_succ st a)); [rewrite (Hc eq_refl)|]; reflexivity.
+Qed.
+
+(* ================================================================== *)
+(* 9. corollaries                                                       *)
+(* ================================================================== *)
+(* accepted exactly when no check fails: no sub-action of an accepted UserAddNode can fail *)
+Theorem uan_core_ok_iff st n a px force :
+  W_dict st -> W_forest st -> W_trk st -> W_book st -> EditBook.rp_disjoint st -> attrs_ok a ->
+  ((exists act st', user_add_node_core st n a px force = Ok act st') <-> uan_refused st n a px force = None).
+Proof.
+  intros Hd Hf Ht Wb Hrp Ao. split.
+  - intros (act & st' & H). destruct (uan_refused st n a px force) as [e|] eqn:R; [|reflexivity].
+    destruct (uan_core_refused st n a px force e R) as (s & H' & _). congruence.
+  - intros R. destruct (uan_core_spec st n a px force Hd Hf Ht Wb Hrp Ao R) as (act & st' & H & _). eauto.
+Qed.
+
+(* C11: every error is a refusal - the error is the one of the first failing check, and the state that
+   comes with it is the given one up to the order inside one lookup list *)
+Theorem uan_error_cases st n a px force e st' :
+  W_dict st -> W_forest st -> W_trk st -> W_book st -> EditBook.rp_disjoint st -> attrs_ok a ->
+  user_add_node_core st n a px force = Err e st' ->
+  uan_refused st n a px force = Some e /\ untouched st st' /\ (uan_early st n a = true -> st' = st).
+Proof.
+  intros Hd Hf Ht Wb Hrp Ao H. destruct (uan_refused st n a px force) as [e0|] eqn:R.
+  - destruct (uan_core_refused st n a px force e0 R) as (s & H' & Hr & He). rewrite H in H'. injection H' as <- <-.
+    split; [reflexivity|]. split; [eapply reordered_untouched; eauto|exact He].
+  - destruct (uan_core_spec st n a px force Hd Hf Ht Wb Hrp Ao R) as (act & s & H' & _). congruence.
+Qed.
+
+Corollary uan_error_is_refusal st n a px force e st' :
+  W_dict st -> W_forest st -> W_trk st -> W_book st -> EditBook.rp_disjoint st -> attrs_ok a ->
+  user_add_node_core st n a px force = Err e st' -> uan_refused st n a px force = Some e /\ untouched st st'.
+Proof.
+  intros Hd Hf Ht Wb Hrp Ao H.
+  destruct (uan_error_cases st n a px force e st' Hd Hf Ht Wb Hrp Ao H) as (A & B & _). auto.
+Qed.
+
+(* in particular the error of unacceptable pixels leaves every edge in place *)
+Corollary uan_px_error_untouched st n a px force e st' :
+  W_dict st -> W_forest st -> W_trk st -> W_book st -> EditBook.rp_disjoint st -> attrs_ok a ->
+  user_add_node_core st n a px force = Err e st' -> ~ px_ok st px ->
+  untouched st st' /\ (forall x y, edge st' x y <-> edge st x y) /\ (forall x, is_node st' x <-> is_node st x).
+Proof.
+  intros Hd Hf Ht Wb Hrp Ao H _.
+  destruct (uan_error_cases st n a px force e st' Hd Hf Ht Wb Hrp Ao H) as (_ & U & _).
+  split; [exact U|]. destruct U as (Eg & _). split.
+  - intros x y. now apply same_g_edge.
+  - intros x. now apply (EditLin.is_node_same_g st st' x).
+Qed.
+
+Corollary uan_keeps_dict st n a px force act st' :
+  W_dict st -> W_forest st -> W_trk st -> W_book st -> EditBook.rp_disjoint st -> attrs_ok a ->
+  user_add_node_core st n a px force = Ok act st' -> W_dict st'.
+Proof.
+  intros Hd Hf Ht Wb Hrp Ao H.
+  pose proof (proj1 (uan_core_ok_iff st n a px force Hd Hf Ht Wb Hrp Ao) (ex_intro _ act (ex_intro _ st' H))) as R.
+  destruct (uan_core_spec st n a px force Hd Hf Ht Wb Hrp Ao R) as (act0 & s & H' & A & _). congruence.
+Qed.
+
+(* C03: an accepted UserAddNode keeps the forward-in-time binary forest; the new node sits between pred and succ *)
+Corollary uan_keeps_forest st n a px force act st' :
+  W_dict st -> W_forest st -> W_trk st -> W_book st -> EditBook.rp_disjoint st -> attrs_ok a ->
+  user_add_node_core st n a px force = Ok act st' ->
+  W_dict st' /\ W_forest st' /\
+  (forall x, is_node st' x <-> is_node st x \/ x = n) /\ time_of st' n = uan_time a /\ trk st' n = Some (uan_tid st a) /\
+  (forall x y, edge st' x y <->
+     (edge st x y /\ ~ In (x, y) (uan_conflict_edges st (uan_pred st a) (uan_succ st a)) /\
+      ~ (uan_pred st a = Some x /\ uan_succ st a = Some y)) \/
+     (uan_pred st a = Some x /\ y = n) \/ (x = n /\ uan_succ st a = Some y)).
+Proof.
+  intros Hd Hf Ht Wb Hrp Ao H.
+  pose proof (proj1 (uan_core_ok_iff st n a px force Hd Hf Ht Wb Hrp Ao) (ex_intro _ act (ex_intro _ st' H))) as R.
+  destruct (uan_core_spec st n a px force Hd Hf Ht Wb Hrp Ao R) as (act0 & s & H' & A & B & C & _ & D & E & F & _).
+  rewrite H in H'. injection H' as _ <-. auto 10.
+Qed.
+
+(* ---- the public entry point (with the history / refresh tail) ---- *)
+Lemma top_wrap_err top p r e st' : top_wrap top p r = Err e st' -> r = Err e st'.
+Proof. unfold top_wrap. destruct r; [discriminate|auto]. Qed.
+
+Theorem user_add_node_keeps_forest st n a px force top act st' :
+  W_dict st -> W_forest st -> W_trk st -> W_book st -> EditBook.rp_disjoint st -> attrs_ok a ->
+  user_add_node st n a px force top = Ok act st' ->
+  W_dict st' /\ W_forest st' /\
+  (forall x, is_node st' x <-> is_node st x \/ x = n) /\ time_of st' n = uan_time a /\ trk st' n = Some (uan_tid st a) /\
+  (forall x y, edge st' x y <->
+     (edge st x y /\ ~ In (x, y) (uan_conflict_edges st (uan_pred st a) (uan_succ st a)) /\
+      ~ (uan_pred st a = Some x /\ uan_succ st a = Some y)) \/
+     (uan_pred st a = Some x /\ y = n) \/ (x = n /\ uan_succ st a = Some y)).
+Proof.
+  intros Hd Hf Ht Wb Hrp Ao H. unfold user_add_node in H.
+  destruct (top_wrap_inv _ _ _ _ _ H) as (s & Hc & Eg & _).
+  destruct (uan_keeps_forest st n a px force act s Hd Hf Ht Wb Hrp Ao Hc) as (A & B & C & D & E & F).
+  split; [now apply (W_dict_same_g s)|]. split; [now apply (W_forest_same_g s)|].
+  split; [intros x; rewrite (EditLin.is_node_same_g s st' x Eg); apply C|].
+  split; [now rewrite (EditLin.time_same_g s st' n Eg)|]. split; [now rewrite (same_g_trk _ _ Eg)|].
+  intros x y. rewrite (same_g_edge _ _ Eg). apply F.
+Qed.
+
+(* C11 for the public entry point: an error means that a check failed; the history and the log are alone
+   (the tail is not reached) and so is everything else but the order inside one lookup list *)
+Theorem user_add_node_error_cases st n a px force top e st' :
+  W_dict st -> W_forest st -> W_trk st -> W_book st -> EditBook.rp_disjoint st -> attrs_ok a ->
+  user_add_node st n a px force top = Err e st' ->
+  uan_refused st n a px force = Some e /\ untouched st st' /\ (uan_early st n a = true -> st' = st).
+Proof.
+  intros Hd Hf Ht Wb Hrp Ao H. unfold user_add_node in H. apply top_wrap_err in H.
+  now apply uan_error_cases.
+Qed.
+
+Theorem user_add_node_refused_unchanged st n a px force top e st' :
+  W_dict st -> W_forest st -> W_trk st -> W_book st -> EditBook.rp_disjoint st -> attrs_ok a ->
+  user_add_node st n a px force top = Err e st' -> uan_refused st n a px force = Some e /\ untouched st st'.
+Proof.
+  intros Hd Hf Ht Wb Hrp Ao H. unfold user_add_node in H. apply top_wrap_err in H.
+  now apply uan_error_is_refusal.
+Qed.
+
+(* accepted exactly when no check fails, for the public entry point *)
+Theorem user_add_node_ok_iff st n a px force top :
+  W_dict st -> W_forest st -> W_trk st -> W_book st -> EditBook.rp_disjoint st -> attrs_ok a ->
+  ((exists act st', user_add_node st n a px force top = Ok act st') <-> uan_refused st n a px force = None).
+Proof.
+  intros Hd Hf Ht Wb Hrp Ao. rewrite <- (uan_core_ok_iff st n a px force Hd Hf Ht Wb Hrp Ao).
+  unfold user_add_node, top_wrap. destruct (user_add_node_core st n a px force) as [a0 s0|e0 s0].
+  - split; intros _; eauto.
+  - split; intros (x & y & C); discriminate C.
+Qed.
+
+(* ================================================================== *)
+(* 10. track ids across one cut (finer than EditTrk.ude_trk's frame)    *)
+(* ================================================================== *)
+(* UserDeleteEdge(u, v) relabels only below v and below v's sibling: every node not later than u keeps its
+   track id, and so does v itself when u was dividing (v keeps its id, the sibling takes u's) *)
+Lemma ude_trk_keep st u v : W_dict st -> W_forest st -> W_trk st -> trk_act (ft st) = true -> edge st u v ->
+  exists a st', user_delete_edge_core st u v = Ok a st' /\
+    (forall m, time_of st m <= time_of st u -> trk st' m = trk st m) /\
+    (divides st u -> trk st' v = trk st v).
+Proof.
+  intros Hd Hf Ht Cta He. unfold user_delete_edge_core. pose proof He as He'. unfold edge in He'. rewrite He'. cbn [negb].
+  destruct (do_del_edge_spec st u v He) as (b1 & s1 & H1 & _ & _ & Hs1 & _). rewrite H1. cbn [bind].
+  destruct (do_del_edge_WS st u v b1 s1 Hd Hf H1) as (Hd1 & Hf1 & He1 & Hn1 & Ha1 & Hr1).
+  assert (gstep st s1) as G1 by (now apply rest_eq_gstep).
+  assert (Cta1 : trk_act (ft s1) = true) by (rewrite (gs_ft _ _ G1); exact Cta).
+  destruct (wd_edge_nodes _ Hd u v He) as [Nu Nv].
+  assert (Nu1 : is_node s1 u) by (now apply (gstep_is_node _ _ _ G1)).
+  assert (Nv1 : is_node s1 v) by (now apply (gstep_is_node _ _ _ G1)).
+  assert (Hlen : length (successors s1 u) = (length (successors st u) - 1)%nat).
+  { rewrite Hs1, Z.eqb_refl. apply filter_remove_length; [apply (wd_adj_nodup _ Hd)|now apply edge_successors]. }
+  assert (Hs1u : successors s1 u = filter (fun x => negb (v =? x)) (successors st u)) by (now rewrite Hs1, Z.eqb_refl).
+  assert (Hs1x : forall x, x <> u -> successors s1 x = successors st x).
+  { intros x Hx. rewrite Hs1. destruct (Z.eqb_spec x u); [contradiction|reflexivity]. }
+  assert (Htm1 : forall m, time_of s1 m = time_of st m) by (intros m; apply (gstep_time _ _ m G1)).
+  pose proof (wf_time _ Hf u v He) as Huv.
+  pose proof (wf_out _ Hf u) as Hout.
+  assert (Hposlen : (1 <= length (successors st u))%nat).
+  { apply edge_successors in He. destruct (successors st u); [destruct He|cbn; lia]. }
+  (* a node not later than u is not on a chain that starts later than u *)
+  assert (Hearly : forall w m, time_of st u < time_of st w -> time_of st m <= time_of st u ->
+                   memz m (chain s1 (length (nodes (g s1))) w) = false).
+  { intros w m Hw Hm. apply memz_false. intros Hin. destruct (chain_time s1 Hf1 _ w m Hin) as [->|Hlt]; rewrite ?Htm1 in *; lia. }
+  unfold out_degree. destruct (successors s1 u) as [|sib rest] eqn:Es.
+  - (* plain edge *)
+    cbn [length Z.of_nat Z.eqb].
+    destruct (upd_track_step s1 v (next_trk s1) (Some (next_lin s1)) Hd1 Hf1 Nv1) as (b2 & s2 & H2 & _).
+    rewrite H2. cbn [bind]. eexists _, s2. split; [reflexivity|].
+    destruct (relabel_walk st s1 u v (next_trk s1) (Some (next_lin s1)) b2 s2 Hd Hf Ht Hd1 Hf1 Hn1 Ha1 Hs1x Nv Huv Cta1 H2) as [Tr _].
+    split.
+    + intros m Hm. rewrite Tr, (Hearly v m Huv Hm). reflexivity.
+    + intros D. exfalso. unfold divides in D. cbn [length] in Hlen. lia.
+  - destruct rest as [|z rest']; [|exfalso; cbn [length] in Hlen; lia].
+    (* division edge *)
+    cbn [length]. change (Z.of_nat 1 =? 0) with false. change (Z.of_nat 1 =? 1) with true. cbv iota.
+    destruct (wd_track _ Hd1 u Nu1) as [t Htk]. apply zattr_attr in Htk. rewrite Htk.
+    assert (Esib1 : edge s1 u sib) by (apply edge_successors; rewrite Es; now left).
+    assert (Esib : edge st u sib) by (apply He1 in Esib1; tauto).
+    assert (Hsv : sib <> v) by (intros ->; apply He1 in Esib1; destruct Esib1 as [_ C]; apply C; auto).
+    assert (Nsib1 : is_node s1 sib) by (apply (wd_edge_nodes _ Hd1 u sib Esib1)).
+    assert (Nsib : is_node st sib) by (apply (wd_edge_nodes _ Hd u sib Esib)).
+    pose proof (wf_time _ Hf u sib Esib) as Hus.
+    destruct (upd_track_step s1 sib t None Hd1 Hf1 Nsib1) as (b2 & s2 & H2 & Hd2 & Hf2 & G2 & E2 & S2).
+    rewrite H2. cbn [bind].
+    destruct (relabel_walk st s1 u sib t None b2 s2 Hd Hf Ht Hd1 Hf1 Hn1 Ha1 Hs1x Nsib Hus Cta1 H2) as [Tr _].
+    assert (Nv2 : is_node s2 v) by (now apply (gstep_is_node _ _ _ G2)).
+    destruct (wd_track _ Hd2 v Nv2) as [tv Htv]. apply zattr_attr in Htv. rewrite Htv.
+    destruct (upd_track_step s2 v tv (Some (next_lin s2)) Hd2 Hf2 Nv2) as (b3 & s3 & H3 & _).
+    rewrite H3. cbn [bind].
+    assert (Cta2 : trk_act (ft s2) = true) by (rewrite (gs_ft _ _ G2); exact Cta1).
+    destruct (do_upd_track_same_id s2 v tv (Some (next_lin s2)) b3 s3 Hd2 Cta2 H3 Htv) as [Tr3 _].
+    eexists _, s3. split; [reflexivity|]. split.
+    + intros m Hm. rewrite Tr3, Tr, (Hearly sib m Hus Hm). reflexivity.
+    + intros _. rewrite Tr3, Tr.
+      assert (memz v (chain s1 (length (nodes (g s1))) sib) = false) as ->; [|reflexivity].
+      apply memz_false. intros Hin. destruct (chain_parent s1 _ sib v Hin) as [C|(p & _ & Hp)]; [now apply Hsv|].
+      assert (Epv : edge s1 p v) by (apply edge_successors; rewrite Hp; now left).
+      apply He1 in Epv. destruct Epv as [Epv Hnot]. apply Hnot. split; [|reflexivity]. exact (wf_in _ Hf p u v Epv He).
+Qed.
+
+Lemma ude_core_ok_edge st u v a st' : user_delete_edge_core st u v = Ok a st' -> edge st u v.
+Proof.
+  unfold user_delete_edge_core, edge. destruct (has_edge st u v); [reflexivity|discriminate].
+Qed.
+
+(* the cuts keep the id invariants; they relabel nothing that is not later than every cut source, and a
+   single cut of a division edge keeps the id of its target *)
+Lemma uan_cut_keep : forall es s acc r s', EditLin.LWF s -> W_trk s -> uan_cut es s acc = Ok r s' ->
+  EditLin.LWF s' /\ W_trk s' /\
+  (forall m, (forall e, In e es -> time_of s m <= time_of s (fst e)) -> trk s' m = trk s m) /\
+  (forall q c, es = [(q, c)] -> divides s q -> trk s' c = trk s c).
+Proof.
+  induction es as [|e r0 IH]; intros s acc r s' L Ht H; cbn [uan_cut] in H.
+  - injection H as _ <-. split; [exact L|]. split; [exact Ht|]. split; [reflexivity|discriminate].
+  - destruct (EditLin.bind_ok _ _ _ _ H) as (x & s1 & Hx & Hrest).
+    unfold user_delete_edge, top_wrap in Hx.
+    destruct (user_delete_edge_core s (fst e) (snd e)) as [x0 s0|e0 s0] eqn:Hc; [|discriminate Hx]. injection Hx as -> ->.
+    pose proof L as [C Hd Hf Hl Hb].
+    pose proof (ude_core_ok_edge _ _ _ _ _ Hc) as He.
+    assert (Cta : trk_act (ft s) = true) by apply C.
+    pose proof (EditLin.ude_core_LWF s _ _ x s1 L Hc) as L1.
+    destruct (ude_trk s _ _ Hd Hf Ht (W_book_trk_bounded s Hb) Cta He) as (a1 & s1' & Hc1 & Ht1 & _).
+    rewrite Hc in Hc1. injection Hc1 as _ <-.
+    destruct (ude_trk_keep s _ _ Hd Hf Ht Cta He) as (a2 & s2' & Hc2 & K1 & K2).
+    rewrite Hc in Hc2. injection Hc2 as _ <-.
+    destruct (ude_core_spec s (fst e) (snd e) Hd Hf) as [_ Hy]. destruct (Hy He) as (a3 & s3' & Hc3 & _ & _ & G & _).
+    rewrite Hc in Hc3. injection Hc3 as _ <-.
+    destruct (IH s1 _ r s' L1 Ht1 Hrest) as (L' & Ht' & K1' & _).
+    split; [exact L'|]. split; [exact Ht'|]. split.
+    + intros m Hm. rewrite K1'.
+      * apply K1. apply Hm. now left.
+      * intros e' He'. rewrite !(gstep_time _ _ _ G). apply Hm. now right.
+    + intros q c Hes D. injection Hes as -> ->. cbn [uan_cut] in Hrest. injection Hrest as _ <-.
+      cbn [fst snd] in K2. now apply K2.
+Qed.
+
+(* the three shapes of the conflict list *)
+Lemma uan_es_cases st a : W_dict st -> W_forest st -> W_trk st -> W_book st ->
+  let pred := uan_pred st a in let succ := uan_succ st a in let es := uan_conflict_edges st pred succ in
+  es = [] \/
+  (exists p, pred = Some p /\ succ = None /\ forall e, In e es -> fst e = p) \/
+  (exists c q, pred = None /\ succ = Some c /\ es = [(q, c)] /\ divides st q).
+Proof.
+  intros Hd Hf Ht Wb. cbv zeta. destruct (uan_nbr_facts st a Hd Hf Ht Wb) as (_ & FP & _).
+  unfold uan_conflict_edges. destruct (uan_pred st a) as [p|] eqn:EP.
+  - destruct (FP p eq_refl) as (_ & _ & _ & Hboth & _).
+    destruct (out_degree st p =? 2) eqn:Eo.
+    + right. left. exists p. split; [reflexivity|]. split.
+      * apply out_degree_2 in Eo. destruct (uan_succ st a) as [c|]; [|reflexivity].
+        destruct (Hboth c eq_refl) as [Hs _]. rewrite Hs in Eo. discriminate Eo.
+      * intros [x y] Hin. apply in_map_pair in Hin. cbn [fst]. tauto.
+    + left. destruct (uan_succ st a) as [c|]; [|reflexivity]. destruct (Hboth c eq_refl) as [_ Hp].
+      unfold uan_down. now rewrite Hp, Eo.
+  - destruct (uan_succ st a) as [c|]; [|now left]. unfold uan_down.
+    destruct (predecessors st c) as [|q r]; [now left|]. destruct (out_degree st q =? 2) eqn:Eo; [|now left].
+    right. right. exists c, q. repeat split. apply out_degree_2 in Eo. unfold divides. lia.
+Qed.
+
+(* ================================================================== *)
+(* 11. the splice and the id invariants, abstractly                     *)
+(* ================================================================== *)
+Lemma opt_cases {A} (o : option A) : o = None \/ exists x, o = Some x.
+Proof. destruct o; eauto. Qed.
+
+Lemma divides_iff st u : W_dict st -> (divides st u <-> exists y1 y2, y1 <> y2 /\ edge st u y1 /\ edge st u y2).
+Proof.
+  intros Hd. unfold divides. pose proof (wd_adj_nodup _ Hd u) as Hnd. setoid_rewrite edge_successors.
+  destruct (successors st u) as [|y1 [|y2 r]]; cbn [length In].
+  - split; [lia|intros (y1 & y2 & _ & [] & _)].
+  - split; [lia|]. intros (a & b & Hne & [<-|[]] & [<-|[]]). exfalso. now apply Hne.
+  - split; [|lia]. intros _. exists y1, y2. split; [|auto]. intros ->. inversion Hnd as [|? ? Hx _]. apply Hx. now left.
+Qed.
+
+(* [s'] is [s] with the new node n spliced between pred and succ *)
+Record spliced (s s' : state) (n : Z) (pred succ : option Z) : Prop := {
+  sp_nodes : forall m, is_node s' m <-> is_node s m \/ m = n;
+  sp_edges : forall x y, edge s' x y <-> (edge s x y /\ ~ (pred = Some x /\ succ = Some y)) \/
+                                         (pred = Some x /\ y = n) \/ (x = n /\ succ = Some y);
+  sp_new : ~ is_node s n;
+  sp_pred : forall p, pred = Some p -> is_node s p;
+  sp_succ : forall c, succ = Some c -> is_node s c;
+  sp_both : forall p c, pred = Some p -> succ = Some c -> edge s p c;
+  sp_py : forall p y, pred = Some p -> edge s p y -> succ = Some y;
+  sp_cq : forall c q, succ = Some c -> edge s q c -> pred = Some q
+}.
+
+Section Spliced.
+Variables (s s' : state) (n : Z) (pred succ : option Z).
+Hypothesis Hd : W_dict s.
+Hypothesis Hd' : W_dict s'.
+Hypothesis Sp : spliced s s' n pred succ.
+
+Lemma sp_old_ne m : is_node s m -> m <> n.
+Proof. intros Hm ->. exact (sp_new _ _ _ _ _ Sp Hm). Qed.
+
+(* out-edges *)
+Lemma sp_out_other x y : x <> n -> pred <> Some x -> (edge s' x y <-> edge s x y).
+Proof.
+  intros Hx Hp. rewrite (sp_edges _ _ _ _ _ Sp). split.
+  - intros [[A _]|[[A _]|[A _]]]; [exact A|contradiction|contradiction].
+  - intros A. left. split; [exact A|]. intros [B _]. contradiction.
+Qed.
+Lemma sp_out_pred p y : pred = Some p -> (edge s' p y <-> y = n).
+Proof.
+  intros Hp. rewrite (sp_edges _ _ _ _ _ Sp). split.
+  - intros [[A B]|[[_ A]|[A _]]]; [|exact A|].
+    + exfalso. apply B. split; [exact Hp|]. exact (sp_py _ _ _ _ _ Sp p y Hp A).
+    + exfalso. exact (sp_old_ne p (sp_pred _ _ _ _ _ Sp p Hp) A).
+  - intros ->. right. left. auto.
+Qed.
+Lemma sp_out_new y : edge s' n y <-> succ = Some y.
+Proof.
+  rewrite (sp_edges _ _ _ _ _ Sp). split.
+  - intros [[A _]|[[A _]|[_ A]]]; [| |exact A].
+    + exfalso. apply (sp_new _ _ _ _ _ Sp). apply (wd_edge_nodes _ Hd n y A).
+    + exfalso. exact (sp_old_ne n (sp_pred _ _ _ _ _ Sp n A) eq_refl).
+  - intros A. right. right. auto.
+Qed.
+(* in-edges *)
+Lemma sp_in_other x y : y <> n -> succ <> Some y -> (edge s' x y <-> edge s x y).
+Proof.
+  intros Hy Hs. rewrite (sp_edges _ _ _ _ _ Sp). split.
+  - intros [[A _]|[[_ A]|[_ A]]]; [exact A|contradiction|contradiction].
+  - intros A. left. split; [exact A|]. intros [_ B]. contradiction.
+Qed.
+Lemma sp_in_succ c x : succ = Some c -> (edge s' x c <-> x = n).
+Proof.
+  intros Hs. rewrite (sp_edges _ _ _ _ _ Sp). split.
+  - intros [[A B]|[[_ A]|[A _]]]; [| |exact A].
+    + exfalso. apply B. split; [|exact Hs]. exact (sp_cq _ _ _ _ _ Sp c x Hs A).
+    + exfalso. exact (sp_old_ne c (sp_succ _ _ _ _ _ Sp c Hs) A).
+  - intros ->. right. right. auto.
+Qed.
+Lemma sp_in_new x : edge s' x n <-> pred = Some x.
+Proof.
+  rewrite (sp_edges _ _ _ _ _ Sp). split.
+  - intros [[A _]|[[A _]|[_ A]]]; [|exact A|].
+    + exfalso. apply (sp_new _ _ _ _ _ Sp). apply (wd_edge_nodes _ Hd x n A).
+    + exfalso. exact (sp_old_ne n (sp_succ _ _ _ _ _ Sp n A) eq_refl).
+  - intros A. right. left. auto.
+Qed.
+
+(* divisions *)
+Lemma sp_div_other x : x <> n -> pred <> Some x -> (divides s' x <-> divides s x).
+Proof.
+  intros Hx Hp. rewrite (divides_iff s' x Hd'), (divides_iff s x Hd).
+  split; intros (y1 & y2 & Hne & E1 & E2); exists y1, y2; (split; [exact Hne|]).
+  - split; now apply (sp_out_other x _ Hx Hp).
+  - split; now apply (sp_out_other x _ Hx Hp).
+Qed.
+Lemma sp_div_pred p : pred = Some p -> ~ divides s' p.
+Proof.
+  intros Hp D. apply (divides_iff s' p Hd') in D. destruct D as (y1 & y2 & Hne & E1 & E2).
+  apply (sp_out_pred p _ Hp) in E1. apply (sp_out_pred p _ Hp) in E2. congruence.
+Qed.
+Lemma sp_div_new : ~ divides s' n.
+Proof.
+  intros D. apply (divides_iff s' n Hd') in D. destruct D as (y1 & y2 & Hne & E1 & E2).
+  apply sp_out_new in E1. apply sp_out_new in E2. congruence.
+Qed.
+
+(* heads and roots of the new state *)
+Lemma sp_head_new : head s' n -> pred = None.
+Proof.
+  intros [_ Hh]. destruct (opt_cases pred) as [Hp|[p Hp]]; [exact Hp|]. exfalso.
+  apply (sp_div_pred p Hp). apply Hh. apply sp_in_new. exact Hp.
+Qed.
+Lemma sp_head_succ c : succ = Some c -> ~ head s' c.
+Proof. intros Hs [_ Hh]. apply sp_div_new. apply Hh. now apply (sp_in_succ c). Qed.
+Lemma sp_head_old x : head s' x -> x <> n -> head s x /\ succ <> Some x.
+Proof.
+  intros Hh Hx. assert (Hs : succ <> Some x) by (intros C; exact (sp_head_succ x C Hh)).
+  split; [|exact Hs]. destruct Hh as [Nx Hh]. apply (sp_nodes _ _ _ _ _ Sp) in Nx. destruct Nx as [Nx|Nx]; [|contradiction].
+  split; [exact Nx|]. intros p Hp.
+  assert (Np : is_node s p) by apply (wd_edge_nodes _ Hd p x Hp).
+  assert (Hpp : pred <> Some p).
+  { intros C. apply Hs. exact (sp_py _ _ _ _ _ Sp p x C Hp). }
+  apply (sp_div_other p (sp_old_ne p Np) Hpp). apply Hh. now apply (sp_in_other p x Hx Hs).
+Qed.
+Lemma sp_root_new : root s' n -> pred = None.
+Proof.
+  intros [_ Hr]. destruct (opt_cases pred) as [Hp|[p Hp]]; [exact Hp|]. exfalso. apply (Hr p). apply sp_in_new. exact Hp.
+Qed.
+Lemma sp_root_succ c : succ = Some c -> ~ root s' c.
+Proof. intros Hs [_ Hr]. apply (Hr n). now apply (sp_in_succ c). Qed.
+Lemma sp_root_old x : root s' x -> x <> n -> root s x /\ succ <> Some x.
+Proof.
+  intros Hr Hx. assert (Hs : succ <> Some x) by (intros C; exact (sp_root_succ x C Hr)).
+  split; [|exact Hs]. destruct Hr as [Nx Hr]. apply (sp_nodes _ _ _ _ _ Sp) in Nx. destruct Nx as [Nx|Nx]; [|contradiction].
+  split; [exact Nx|]. intros p Hp. apply (Hr p). now apply (sp_in_other p x Hx Hs).
+Qed.
+(* succ, when there is no pred, was parentless *)
+Lemma sp_succ_orphan c : pred = None -> succ = Some c -> forall q, ~ edge s q c.
+Proof. intros Hp Hs q Hq. pose proof (sp_cq _ _ _ _ _ Sp c q Hs Hq) as C. congruence. Qed.
+
+(* ---- W_trk ---- *)
+Variable T : Z.
+Hypothesis Ht : W_trk s.
+Hypothesis Tn : trk s' n = Some T.
+Hypothesis Told : forall m, m <> n -> trk s' m = trk s m.
+Hypothesis Tp : forall p, pred = Some p -> trk s p = Some T.
+Hypothesis Tc : forall c, succ = Some c -> trk s c = Some T.
+Hypothesis Tnone : pred = None -> succ = None -> forall m, is_node s m -> trk s m <> Some T.
+
+Lemma spliced_W_trk : W_trk s'.
+Proof.
+  constructor.
+  - intros u v He Hnd. destruct (Z.eq_dec u n) as [->|Hu].
+    + apply sp_out_new in He. rewrite Tn, (Told v (sp_old_ne v (sp_succ _ _ _ _ _ Sp v He))). symmetry. now apply Tc.
+    + assert (Hcase : pred = Some u \/ pred <> Some u).
+      { destruct (opt_cases pred) as [Hp|[p Hp]]; [right; congruence|]. destruct (Z.eq_dec u p) as [->|Hup]; [now left|right; congruence]. }
+      destruct Hcase as [Hp|Hpp].
+      * apply (sp_out_pred u v Hp) in He. subst v. rewrite Tn, (Told u Hu). now apply Tp.
+      * apply (sp_out_other u v Hu Hpp) in He.
+        assert (Hv : v <> n) by (apply sp_old_ne; apply (wd_edge_nodes _ Hd u v He)).
+        rewrite (Told u Hu), (Told v Hv). apply (wt1 _ Ht u v He). intros D. apply Hnd. now apply (sp_div_other u Hu Hpp).
+  - assert (Hnew : forall b, head s' n -> head s' b -> b <> n -> trk s' b = Some T -> False).
+    { intros b Hn Hb Hbn Eb. pose proof (sp_head_new Hn) as Hp. destruct (sp_head_old b Hb Hbn) as [Hb' Hsb].
+      rewrite (Told b Hbn) in Eb. destruct (opt_cases succ) as [Hs|[c Hs]].
+      - exact (Tnone Hp Hs b (proj1 Hb') Eb).
+      - apply Hsb. rewrite Hs. f_equal. apply (wt2 _ Ht c b); [|exact Hb'|rewrite Eb; now apply Tc].
+        split; [apply (sp_succ _ _ _ _ _ Sp c Hs)|]. intros q Hq. exfalso. exact (sp_succ_orphan c Hp Hs q Hq). }
+    intros a b Ha Hb E. destruct (Z.eq_dec a n) as [->|Han]; destruct (Z.eq_dec b n) as [->|Hbn]; [reflexivity| | |].
+    + exfalso. apply (Hnew b Ha Hb Hbn). now rewrite <- E.
+    + exfalso. apply (Hnew a Hb Ha Han). now rewrite E.
+    + destruct (sp_head_old a Ha Han) as [Ha' _]. destruct (sp_head_old b Hb Hbn) as [Hb' _].
+      rewrite (Told a Han), (Told b Hbn) in E. exact (wt2 _ Ht a b Ha' Hb' E).
+Qed.
+
+(* ---- W_lin ---- *)
+Variable L : Z.
+Hypothesis Hl : W_lin s.
+Hypothesis Ln : lin s' n = Some L.
+Hypothesis Lold : forall m, m <> n -> lin s' m = lin s m.
+Hypothesis Lp : forall p, pred = Some p -> lin s p = Some L.
+Hypothesis Lc : pred = None -> forall c, succ = Some c -> lin s c = Some L.
+Hypothesis Lnone : pred = None -> succ = None -> forall m, is_node s m -> lin s m <> Some L.
+
+Lemma spliced_W_lin : W_lin s'.
+Proof.
+  assert (Lc' : forall c, succ = Some c -> lin s c = Some L).
+  { intros c Hs. destruct (opt_cases pred) as [Hp|[p Hp]]; [now apply Lc|].
+    rewrite <- (wl1 _ Hl p c (sp_both _ _ _ _ _ Sp p c Hp Hs)). now apply Lp. }
+  constructor.
+  - intros u v He. destruct (Z.eq_dec u n) as [->|Hu].
+    + apply sp_out_new in He. rewrite Ln, (Lold v (sp_old_ne v (sp_succ _ _ _ _ _ Sp v He))). symmetry. now apply Lc'.
+    + assert (Hcase : pred = Some u \/ pred <> Some u).
+      { destruct (opt_cases pred) as [Hp|[p Hp]]; [right; congruence|]. destruct (Z.eq_dec u p) as [->|Hup]; [now left|right; congruence]. }
+      destruct Hcase as [Hp|Hpp].
+      * apply (sp_out_pred u v Hp) in He. subst v. rewrite Ln, (Lold u Hu). now apply Lp.
+      * apply (sp_out_other u v Hu Hpp) in He.
+        assert (Hv : v <> n) by (apply sp_old_ne; apply (wd_edge_nodes _ Hd u v He)).
+        rewrite (Lold u Hu), (Lold v Hv). exact (wl1 _ Hl u v He).
+  - assert (Hnew : forall b, root s' n -> root s' b -> b <> n -> lin s' b = Some L -> False).
+    { intros b Hn Hb Hbn Eb. pose proof (sp_root_new Hn) as Hp. destruct (sp_root_old b Hb Hbn) as [Hb' Hsb].
+      rewrite (Lold b Hbn) in Eb. destruct (opt_cases succ) as [Hs|[c Hs]].
+      - exact (Lnone Hp Hs b (proj1 Hb') Eb).
+      - apply Hsb. rewrite Hs. f_equal. apply (wl2 _ Hl c b); [|exact Hb'|rewrite Eb; now apply Lc].
+        split; [apply (sp_succ _ _ _ _ _ Sp c Hs)|]. exact (sp_succ_orphan c Hp Hs). }
+    intros a b Ha Hb E. destruct (Z.eq_dec a n) as [->|Han]; destruct (Z.eq_dec b n) as [->|Hbn]; [reflexivity| | |].
+    + exfalso. apply (Hnew b Ha Hb Hbn). now rewrite <- E.
+    + exfalso. apply (Hnew a Hb Ha Han). now rewrite E.
+    + destruct (sp_root_old a Ha Han) as [Ha' _]. destruct (sp_root_old b Hb Hbn) as [Hb' _].
+      rewrite (Lold a Han), (Lold b Hbn) in E. exact (wl2 _ Hl a b Ha' Hb' E).
+Qed.
+End Spliced.
+
+(* ================================================================== *)
+(* 12. C04 / C05 / C06: the id invariants and the lookups are kept       *)
+(* ================================================================== *)
+Lemma W_lin_same_g s s' : g s' = g s -> W_lin s -> W_lin s'.
+Proof.
+  intros E W.
+  assert (Hr : forall a, root s' a -> root s a).
+  { intros a [Na Pa]. split; [now apply (EditLin.is_node_same_g s s' a E)|].
+    intros p Hp. apply (Pa p). now apply (EditLin.edge_same_g s s' p a E). }
+  constructor.
+  - intros u v He. rewrite !(EditLin.lin_same_g s s' _ E). apply (wl1 _ W). now apply (EditLin.edge_same_g s s' u v E).
+  - intros a b Ha Hb Eq. rewrite !(EditLin.lin_same_g s s' _ E) in Eq. apply (wl2 _ W); auto.
+Qed.
+
+(* the track of the new node is empty when get_track_neighbors finds nobody *)
+Lemma uan_empty_track st a : W_book st -> uan_pred st a = None -> uan_succ st a = None ->
+  forall m, is_node st m -> trk st m <> Some (uan_tid st a).
+Proof.
+  intros Wb Hp Hs m Nm Tm. pose proof (uan_neighbors_eq st a) as E. rewrite Hp, Hs in E.
+  destruct (EditBook.track_neighbors_spec st _ _ _ _ _ Wb E) as (_ & _ & PP & SS). cbn in PP, SS.
+  assert (M : EditBook.track_nodes st (uan_tid st a) m) by (split; assumption).
+  pose proof (no_track_at st _ _ Wb (uan_tid_free st a Wb) m M) as N0.
+  pose proof (PP m M) as N1. pose proof (SS m M) as N2. lia.
+Qed.
+
+(* the accepted action, with every invariant of the id bookkeeping.
+   The caller supplies no lineage id (the action computes it); a caller-supplied one is outside the domain:
+   nothing relates it to the lineage of the neighbours. *)
+Theorem uan_core_keeps_ids st n a px force act st' :
+  EditLin.LWF st -> W_trk st -> EditBook.rp_disjoint st -> attrs_ok a -> haskey KLin a = false ->
+  user_add_node_core st n a px force = Ok act st' ->
+  EditLin.LWF st' /\ W_trk st'.
+Proof.
+  intros LW Ht Hrp Ao Hnl H. pose proof LW as [C Hd Hf Hl Wb].
+  pose proof (proj1 (uan_core_ok_iff st n a px force Hd Hf Ht Wb Hrp Ao) (ex_intro _ act (ex_intro _ st' H))) as R.
+  destruct (uan_after_cuts st n a px force Hd Hf Ht Wb R)
+    as (acts & s2 & Hcut & Hc & Hd2 & Hf2 & G & Hn2 & Ed & HP & HS & Hboth & Hpy & Hcq & Hkt & Hkk & Hpos & _ & Hpx). cbv zeta in *.
+  (* the sorted state *)
+  pose proof (track_neighbors_reordered st (uan_tid st a) (uan_time a)) as Hr. fold (uan_sorted st a) in Hr.
+  destruct (reordered_frame _ _ _ Hr) as (Eg & _ & _ & _ & _ & _ & _ & _ & Hnode1 & _ & Htm1 & Htrk1 & _ & _ & _ & _ & Hdiv1 & _ & _ & Wd1 & Wf1 & Wt1 & Wc1).
+  destruct (uan_nbr_facts st a Hd Hf Ht Wb) as (Wb1 & FP & FS).
+  assert (L1 : EditLin.LWF (uan_sorted st a)).
+  { constructor; [now apply Wc1|now apply Wd1|now apply Wf1|now apply (W_lin_same_g st)|exact Wb1]. }
+  (* the cuts *)
+  destruct (uan_cut_keep _ _ _ _ _ L1 (Wt1 Ht) Hcut) as (L2 & Ht2 & K1 & K2).
+  pose proof L2 as [C2 _ _ Hl2 Wb2].
+  assert (Tfacts : (forall p, uan_pred st a = Some p -> trk s2 p = Some (uan_tid st a)) /\
+                   (forall c, uan_succ st a = Some c -> trk s2 c = Some (uan_tid st a)) /\
+                   (uan_pred st a = None -> uan_succ st a = None -> forall m, is_node s2 m -> trk s2 m <> Some (uan_tid st a))).
+  { destruct (uan_es_cases st a Hd Hf Ht Wb) as [Hes|[(p & Hp & Hs & Hes)|(c & q & Hp & Hs & Hes & Dq)]]; cbv zeta in Hes.
+    - assert (Hsame : forall m, trk s2 m = trk st m).
+      { intros m. rewrite K1, Htrk1; [reflexivity|]. intros e He. rewrite Hes in He. destruct He. }
+      split; [intros p Hp; rewrite Hsame; apply (FP p Hp)|]. split; [intros c Hs; rewrite Hsame; apply (FS c Hs)|].
+      intros Hp Hs m Nm. rewrite Hsame. apply (uan_empty_track st a Wb Hp Hs). now apply (gstep_is_node _ _ m G).
+    - split; [|split; [intros c Hs'; congruence|intros Hp'; congruence]].
+      intros p0 Hp0. rewrite Hp in Hp0. injection Hp0 as <-. rewrite K1, Htrk1; [apply (FP p Hp)|].
+      intros e He. rewrite (Hes e He). lia.
+    - split; [intros p Hp'; congruence|]. split; [|intros _ Hs'; congruence].
+      intros c0 Hc0. rewrite Hs in Hc0. injection Hc0 as <-. rewrite (K2 q c Hes), Htrk1; [apply (FS c Hs)|now apply Hdiv1]. }
+  destruct Tfacts as (Tp & Tc & Tnone).
+  (* the attributes *)
+  destruct (uan_attrs_facts st a Ao Hkt Hkk) as (A0 & A1 & And & Alin & Aoth & Aall).
+  destruct (uan_lin_attrs_facts s2 (uan_attrs st a) (uan_pred st a) (uan_succ st a) Hd2 And) as (L & Lk & Lnd & Loth & Lall & Llin).
+  { rewrite Alin. apply (ao_lin _ Ao). }
+  { intros p Hp. apply (HP p Hp). }
+  { intros c Hs. apply (HS c Hs). }
+  cbv zeta in *. destruct K_distinct as (D1 & D2 & D3).
+  assert (Hno' : haskey KLin (uan_attrs st a) = false) by (unfold haskey in *; now rewrite Alin).
+  destruct (Llin Hno') as (LP & LS & LN).
+  assert (Hrp2 : EditBook.rp_disjoint s2) by (unfold EditBook.rp_disjoint; rewrite (gs_ft _ _ G); exact Hrp).
+  assert (B0 : lookup KTime (uan_lin_attrs s2 (uan_attrs st a) (uan_pred st a) (uan_succ st a)) = Some (VZ (uan_time a)))
+    by (rewrite Loth by exact D2; exact A0).
+  assert (B1 : lookup KTrack (uan_lin_attrs s2 (uan_attrs st a) (uan_pred st a) (uan_succ st a)) = Some (VZ (uan_tid st a)))
+    by (rewrite Loth by exact D3; exact A1).
+  assert (Bpos : px = None -> all_in (pos_keys (ft s2)) (uan_lin_attrs s2 (uan_attrs st a) (uan_pred st a) (uan_succ st a)) = true).
+  { intros ->. apply Lall. rewrite Aall, (gs_ft _ _ G). unfold uan_no_pos in Hpos. now apply negb_false_iff in Hpos. }
+  assert (Bpx : px_ok s2 px).
+  { destruct px as [p|]; [|exact I]. cbn [px_ok] in *. rewrite (gs_seg _ _ G). exact Hpx. }
+  destruct (uan_splice_spec s2 n _ px _ _ acts (uan_time a) (uan_tid st a) L Hd2 Hf2 Hn2 Hrp2 Lnd B0 B1 Lk Bpos Bpx HP HS Hboth Hpy Hcq)
+    as (act' & s' & H' & Hd' & Hf' & Nd' & _ & Ed' & _ & Tk' & Ln' & _ & At' & _ & _ & Hbook).
+  rewrite Hc, H' in H. injection H as _ <-.
+  destruct (Hbook C2 Wb2) as [C' Wb'].
+  assert (Sp : spliced s2 s' n (uan_pred st a) (uan_succ st a)).
+  { constructor; [exact Nd'|exact Ed'|exact Hn2|intros p Hp; apply (HP p Hp)|intros c Hs; apply (HS c Hs)|exact Hboth|exact Hpy|exact Hcq]. }
+  assert (Told : forall m, m <> n -> trk s' m = trk s2 m) by (intros m Hm; unfold trk, zattr; now rewrite At').
+  assert (Lold : forall m, m <> n -> lin s' m = lin s2 m) by (intros m Hm; unfold lin, zattr; now rewrite At').
+  split.
+  - constructor; [exact C'|exact Hd'|exact Hf'| |exact Wb'].
+    apply (spliced_W_lin s2 s' n _ _ Hd2 Sp L Hl2 Ln' Lold LP LS).
+    intros Hp Hs m Nm. rewrite (LN Hp Hs). now apply EditBook.next_lin_fresh.
+  - exact (spliced_W_trk s2 s' n _ _ Hd2 Hd' Sp _ Ht2 Tk' Told Tp Tc Tnone).
+Qed.
+
+Theorem user_add_node_keeps_ids st n a px force top act st' :
+  EditLin.LWF st -> W_trk st -> EditBook.rp_disjoint st -> attrs_ok a -> haskey KLin a = false ->
+  user_add_node st n a px force top = Ok act st' ->
+  EditLin.LWF st' /\ W_trk st'.
+Proof.
+  intros LW Ht Hrp Ao Hnl H. unfold user_add_node, top_wrap in H.
+  destruct (user_add_node_core st n a px force) as [a0 s0|e0 s0] eqn:Hc; [|discriminate H]. injection H as <- <-.
+  destruct (uan_core_keeps_ids st n a px force a0 s0 LW Ht Hrp Ao Hnl Hc) as [L' T'].
+  destruct top; [|auto]. destruct (finish_top_graph s0 a0 (Some n)) as (Eg & _ & Ef & Eb).
+  split; [now apply (EditLin.LWF_same s0)|now apply (W_trk_same_g s0)].
+Qed.
+
+(* the invariant bundle of this file: every conjunct of WF that concerns the graph and the id bookkeeping *)
+Corollary user_add_node_keeps_all st n a px force top act st' :
+  cfg_ok st -> W_dict st -> W_forest st -> W_trk st -> W_lin st -> W_book st ->
+  EditBook.rp_disjoint st -> attrs_ok a -> haskey KLin a = false ->
+  user_add_node st n a px force top = Ok act st' ->
+  cfg_ok st' /\ W_dict st' /\ W_forest st' /\ W_trk st' /\ W_lin st' /\ W_book st'.
+Proof.
+  intros C Hd Hf Ht Hl Wb Hrp Ao Hnl H.
+  destruct (user_add_node_keeps_ids st n a px force top act st' (EditLin.Build_LWF st C Hd Hf Hl Wb) Ht Hrp Ao Hnl H) as [[C' Hd' Hf' Hl' Wb'] Ht'].
+  auto 10.
 Qed.
